@@ -1,517 +1,1185 @@
-"""C11 -- OUTPUT4 / OUTPUT2 decoders (partial claim)."""
+"""C11 -- OUTPUT4 / OUTPUT2 decoders (partial claim).
+
+Every rule is decided on values: the readers, skippers and loaders are walked by the consumption evaluator (c11_consume.Walker), formats come
+from the per-key-width tables of c11_fmt; nothing depends on the names of locals, on temporaries, on branch layout or on which helper a
+statement lives in."""
 from __future__ import annotations
 
 import ast
-import re
 
 from . import e2_formula as F
-from . import op4_model as M
+from . import c11_consume as C
+from . import c11_fmt as T
+from .c11_consume import Stuck
 from .core import AnchorError, Unsupported
-from .e1_srcmodel import dotted, walk_no_nested, parent, ancestors, enclosing_stmt, utext
-from .e2_eval import Evaluator, is_unknown, need
+from .e1_srcmodel import dotted
+from .e2_eval import is_unknown
+from .sem import place
 
-OP4, OP2 = M.OP4, M.OP2
+OP4, OP2 = T.OP4, T.OP2
+STRUCT_SIZE, STRUCT_KIND, NP_KIND = T.STRUCT_SIZE, T.STRUCT_KIND, T.NP_KIND
+KEYB = F.sym("self._ibytes")
+KEY = 8 + KEYB                      # bytes of one key triplet [4][key][4]
 
-STRUCT_SIZE = {"i": 4, "I": 4, "q": 8, "Q": 8, "f": 4, "d": 8}
-STRUCT_KIND = {"i": "int", "I": "uint", "q": "int", "Q": "uint", "f": "float", "d": "float"}
-NP_KIND = {"i": "int", "u": "uint", "f": "float"}
 
-
-def _parse_struct(expr_txt):
-    """'self._endian + "%dd"' / "'<3q'" -> (endian_expr, count, code) from the literal part"""
-    m = re.search(r"['\"]([<>=@!]?)(%d|\d*)([iIqQfd])['\"]", expr_txt)
-    if not m:
+# ------------------------------------------------------------------------------------------------------------------ walking helpers
+def _walk(ctx, rel, cls, q, tag="", **kw):
+    """walk a function once per (function, tag); a construct the walker cannot lower is an analysis error of the calling rule"""
+    cache = ctx.__dict__.setdefault("_c11_walks", {})
+    k = (q, tag)
+    if k not in cache:
+        fn = ctx.src.func(rel, q)
+        try:
+            cache[k] = C.Walker(ctx, rel, cls, fn, **kw).run_function()
+        except (Stuck, Unsupported) as e:
+            cache[k] = e
+    else:
+        ctx.src.func(rel, q)
+    w = cache[k]
+    if isinstance(w, Exception):
+        ctx.error(f"{q.split('.')[-1]}: cannot follow the file position", ctx.src.func(rel, q), str(w))
         return None
-    return m.group(2), m.group(3)
+    return w
 
 
-def _struct_items(expr_txt):
-    """literal struct format in an expression -> list of (count, code)"""
-    m = re.search(r"['\"]([<>=@!]?)((?:\d*[iIqQfd])+)['\"]", expr_txt)
-    if not m:
-        return None
-    return [(int(c) if c else 1, k) for c, k in re.findall(r"(\d*)([iIqQfd])", m.group(2))]
+def _w2(ctx, name, **kw):
+    return _walk(ctx, OP2, "OP2", "OP2." + name, **kw)
 
 
-def _parse_npdtype(expr_txt):
-    m = re.search(r"['\"]([<>=|]?)([iuf])(\d)['\"]", expr_txt)
-    if not m:
-        return None
-    return m.group(2), int(m.group(3))
+def _w4(ctx, name, **kw):
+    return _walk(ctx, OP4, "OP4", "OP4." + name, **kw)
 
 
-def _attr_table(fn, arm_test_contains=None):
-    """{attr: {arm: value_text}} for self.<attr> assignments inside fn, keyed by enclosing if/else arm of a given test"""
-    out = {}
-    for st in ast.walk(fn):
-        if isinstance(st, ast.Assign) and len(st.targets) == 1 and isinstance(st.targets[0], ast.Attribute) \
-                and isinstance(st.targets[0].value, ast.Name) and st.targets[0].value.id == "self":
-            arm = "all"
-            for a in ancestors(st):
-                if isinstance(a, ast.If) and arm_test_contains and arm_test_contains in ast.unparse(a.test):
-                    inbody = any(st is y for x in a.body for y in ast.walk(x))
-                    arm = "then" if inbody else "else"
-                    break
-            out.setdefault(st.targets[0].attr, {})[arm] = ast.unparse(st.value)
-    return out
+def _short(q):
+    return q.split(".")[-1]
 
 
-def r2_declared_sizes(ctx):
-    fn = M.func(ctx, "OP4._op4open_read")
-    tb = _attr_table(fn, "self._bit64")
-    for arm, label in (("then", "64-bit"), ("else", "32-bit")):
-        for nm, cnt in (("i", 1), ("ii", 2), ("iii", 3), ("iiii", 4)):
-            s = tb.get(f"_Str_{nm}", {}).get(arm)
-            b = tb.get(f"_bytes_{nm}", {}).get(arm)
-            if s == "self._Str_i4":
-                s = tb.get("_Str_i4", {}).get("all")
-            items = _struct_items(s or "")
-            if items is None or b is None:
-                ctx.error(f"op4 {label}: _Str_{nm} / _bytes_{nm}", fn, f"{s} {b}")
-                continue
-            n = sum(c for c, k in items)
-            size = sum(c * STRUCT_SIZE[k] for c, k in items)
-            word = 8 if arm == "then" else 4
-            ok = size == int(b) and n == cnt and all(STRUCT_SIZE[k] == word for c, k in items)
-            ctx.check(ok, f"op4 {label}: _bytes_{nm} = {b} equals the size of its struct format ({cnt} x {word} bytes)", fn,
-                      None if ok else {"format": s, "bytes": b})
-        sr, srf, bsr = (tb.get(k, {}).get(arm) for k in ("_str_sr", "_str_sr_fromfile", "_bytes_sr"))
-        ps, pn = _parse_struct(sr or ""), _parse_npdtype(srf or "")
-        ok = ps is not None and pn is not None and bsr is not None and STRUCT_SIZE[ps[1]] == pn[1] == int(bsr) \
-            and STRUCT_KIND[ps[1]] == NP_KIND[pn[0]] == "float"
-        ctx.check(ok, f"op4 {label}: 'single-precision word' struct code, numpy dtype and byte count agree ({sr}, {srf}, {bsr})", fn)
-        wpd = tb.get("_wordsperdouble", {}).get(arm)
-        ok = wpd is not None and bsr is not None and int(wpd) * int(bsr) == 8
-        ctx.check(ok, f"op4 {label}: words per double = 8 / word size", fn, {"wordsperdouble": wpd, "bytes_sr": bsr})
-    dr, drf = tb.get("_str_dr", {}).get("all"), tb.get("_str_dr_fromfile", {}).get("all")
-    ps, pn = _parse_struct(dr or ""), _parse_npdtype(drf or "")
-    ok = ps is not None and pn is not None and ps[1] == "d" and pn == ("f", 8)
-    ctx.check(ok, "op4: double struct code and numpy dtype agree (d / f8)", fn)
-    for nm in ("_str_sr", "_str_dr", "_str_sr_fromfile", "_str_dr_fromfile"):
-        ok = all("self._endian" in v for v in tb.get(nm, {}).values())
-        ctx.check(ok, f"op4: {nm} carries the detected byte order", fn, nontrivial=False)
-    # op2
-    fn = M.func_op2(ctx, "OP2._op2open") if hasattr(M, "func_op2") else ctx.src.func(OP2, "OP2._op2open")
-    tb = _attr_table(fn, "reclen == 4")
-    for arm, label, isz in (("then", "32-bit", 4), ("else", "64-bit", 8)):
-        ib = tb.get("_ibytes", {}).get(arm)
-        istr, istru = tb.get("_intstr", {}).get(arm), tb.get("_intstru", {}).get(arm)
-        rf, rfu, fb = tb.get("_rfrm", {}).get(arm), tb.get("_rfrmu", {}).get(arm), tb.get("_fbytes", {}).get(arm)
-        pn, ps = _parse_npdtype(istr or ""), _parse_struct(istru or "")
-        ok = pn is not None and ps is not None and ib is not None and pn[1] == STRUCT_SIZE[ps[1]] == int(ib) == isz \
-            and NP_KIND[pn[0]] == STRUCT_KIND[ps[1]] == "int"
-        ctx.check(ok, f"op2 {label}: integer numpy dtype, struct code and _ibytes agree ({istr}, {istru}, {ib})", fn)
-        pn, ps = _parse_npdtype(rf or ""), _parse_struct(rfu or "")
-        ok = pn is not None and ps is not None and fb is not None and pn[1] == STRUCT_SIZE[ps[1]] == int(fb) == isz
-        ctx.check(ok, f"op2 {label}: real numpy dtype, struct code and _fbytes agree ({rf}, {rfu}, {fb})", fn)
-        sk = tb.get("_Str", {}).get(arm)
-        ok = sk is not None and (("'q'" in sk) if isz == 8 else (sk == "self._Str4"))
-        ctx.check(ok, f"op2 {label}: key struct is {isz} bytes", fn, sk)
+def _reader_call(fn, nargs):
+    """the call through a local that holds the selected reader: the only call of a plain local name with `nargs` positional arguments"""
+    hits = [n for n in ast.walk(fn) if isinstance(n, ast.Call) and isinstance(n.func, ast.Name) and len(n.args) == nargs and not n.keywords]
+    return hits[0] if len(hits) == 1 else None
 
 
-def _cutover_sites(fn):
-    """`if n < cutoff: ... struct.unpack(FMT % n, f.read(B)) else: ... np.fromfile(f, DT, n)`"""
+def _nparams(fn):
+    return len(fn.args.args) - 1
+
+
+def _loader_with(ctx, loader, reader):
+    """walk a loader with the call of the selected reader bound to `reader`: the reader's statements are evaluated on the loader's values"""
+    lf = ctx.src.func(OP4, "OP4." + loader)
+    rf = ctx.src.func(OP4, "OP4." + reader)
+    call = _reader_call(lf, _nparams(rf))
+    if call is None:
+        ctx.error(f"{loader}: call of the selected reader", lf)
+        return None, None
+    w = _w4(ctx, loader, tag=reader, indirect={id(call): rf}, no_inline={"self._skipop4_ascii", "self._skipop4_binary"})
+    return w, call
+
+
+def _lv_in(v, frame):
+    """the loop-carried placeholders of one loop frame occurring in a formula"""
     out = []
-    for st in ast.walk(fn):
-        if isinstance(st, ast.If) and isinstance(st.test, ast.Compare) and isinstance(st.test.ops[0], ast.Lt) \
-                and ("utoff" in ast.unparse(st.test.comparators[0])):
-            un = [c for b in st.body for c in ast.walk(b) if isinstance(c, ast.Call) and dotted(c.func) == "struct.unpack"]
-            ff = [c for b in st.orelse for c in ast.walk(b) if isinstance(c, ast.Call) and dotted(c.func) == "np.fromfile"]
-            if un and ff:
-                out.append((st, un[0], ff[0]))
+    for d in C.walk_atoms(v):
+        if d[0] == "fn" and d[1] == "lv" and C._arg(d[2][0]).equals(frame):
+            at = F.Rat(F.Poly.atom(F._intern(d)))
+            if not any(at.equals(x) for x in out):
+                out.append(at)
     return out
 
 
-def _resolve_local(fn, name, before):
-    """all values a local name is assigned before a line (text)"""
-    vals = []
-    for st in ast.walk(fn):
-        if isinstance(st, ast.Assign) and st.lineno < before:
-            for t in st.targets:
-                if isinstance(t, ast.Name) and t.id == name:
-                    vals.append((st, ast.unparse(st.value)))
-    return vals
+def _in_frame(e_frame, frame):
+    return e_frame is not None and e_frame.equals(frame)
+
+
+def _frame_of(atom_desc):
+    return C._arg(atom_desc[2][0])
+
+
+def _is_sub_frame(fid, root):
+    """fid is root or a frame nested in it"""
+    cur = fid
+    for _ in range(12):
+        if cur.equals(root):
+            return True
+        p = C.fn_parts(cur)
+        if p is None or p[0] != "frame":
+            return False
+        cur = p[1][0]
+    return False
+
+
+def _counter(lp):
+    """`while P > 0` -> (P, decrement per iteration) for the loop-carried P of the test"""
+    t = C.fn_parts(C.norm(lp.test))
+    if t is None or t[0] != "ge0":
+        return None, None
+    ps = _lv_in(t[1][0], lp.frame)
+    if len(ps) != 1 or not (t[1][0] + 1).equals(ps[0]):
+        return None, None
+    upd = [v for p, v in lp.carry if p.equals(ps[0])]
+    if len(upd) != 1 or upd[0] is None or is_unknown(upd[0]):
+        return ps[0], None
+    return ps[0], ps[0] - upd[0]
+
+
+def _rat(v):
+    return v is not None and not is_unknown(v) and not isinstance(v, tuple)
+
+
+# ------------------------------------------------------------------------------------------------------------------ R1
+def _leaf_label(path):
+    last = None
+    for c, take in path:
+        last = (c, take)
+        if take:
+            pass
+    if last is None:
+        return "all"
+    trues = [c for c, take in path if take]
+    if trues:
+        return T.show_cond(trues[-1])
+    return "not (" + T.show_cond(path[-1][0]) + ")"
+
+
+def _check_site(ctx, q, c, tbs, extra=None, site_label=""):
+    """one struct/fromfile cut-over site: same count, same bytes, same type on both routes, for every format binding and key width"""
+    nm = _short(q)
+    node = c["node"]
+    fp = C.fn_parts(c["fmt"]) if _rat(c["fmt"]) else None
+    if fp is None or fp[0] not in ("fmt", "mod") or len(fp[1]) != 2:
+        ctx.error(f"{nm}: struct format of the cut-over is not `format % count`", c["unpack_node"], repr(c["fmt"]))
+        return
+    fmtv, cnt_s = fp[1]
+    cnt = c["count_ff"]
+    ok = C.same(cnt_s, cnt)
+    ctx.check(ok, f"{nm}{site_label}: both sides of the cut-over read the same number of values", node,
+              None if ok else {"unpack": repr(cnt_s), "fromfile": repr(cnt)})
+    if not ok:
+        return
+    if C.norm(cnt).is_zero():
+        ctx.error(f"{nm}: count of the cut-over", node)
+        return
+    bpv = c["nbytes"] / cnt
+    vals = [fmtv, c["dtype"], bpv] + list(extra or [])
+    try:
+        lvs = C.leaves(vals)
+    except Unsupported as e:
+        ctx.error(f"{nm}: format selections of the cut-over", node, str(e))
+        return
+    for path, (f_, d_, b_, *rest) in lvs:
+        key = _leaf_label(path)
+        for bits in (32, 64):
+            tb = tbs[bits]
+            ftxt, dtxt, bnum = T.strval(f_, tb), T.strval(d_, tb), T.numval(C.norm(b_), tb)
+            si, dt = T.struct_items(ftxt), T.dtype_of(dtxt)
+            if si is None or dt is None or len(si[1]) != 1 or si[1][0][0] != "%d" or bnum is None:
+                ctx.error(f"{nm} [{key}, {bits}-bit keys]: cannot resolve the formats of the cut-over", node,
+                          {"struct": ftxt or repr(f_), "numpy": dtxt or repr(d_), "bytes per value": repr(bnum)})
+                continue
+            code = si[1][0][1]
+            kind, size = dt[1], dt[2]
+            ok = STRUCT_SIZE[code] == size and C.same(bnum, F.const(size)) and STRUCT_KIND[code] == NP_KIND[kind] and si[0] == dt[0]
+            ctx.check(ok, f"{nm} [{key}, {bits}-bit keys]: struct code '{code}' and numpy dtype '{kind}{size}' decode the same type from the same "
+                          f"bytes per value on both sides of the 3000-value cut-over", node,
+                      None if ok else {"struct": ftxt, "numpy": dtxt, "bytes per value read by the struct side": repr(C.norm(bnum)),
+                                       "witness": "a string of 3000 or more values is decoded by np.fromfile, a shorter one by struct.unpack: with different "
+                                                  "item sizes the long string is garbage and the reader leaves the record boundary; with different kinds "
+                                                  "(signed/unsigned) a word >= 2^63 decodes differently on the two routes"},
+                      key=f"C11-R1|{q}|{key}|{bits}|{ftxt.replace(T.ENDIAN, '')}|{dtxt.replace(T.ENDIAN, '')}")
+            if rest and rest[0] is not None:
+                # words per value (op4): a value occupies wper words of the key width
+                wper = T.numval(C.norm(rest[0]), tb)
+                bi = T.numval(F.sym("self._bytes_i"), tb)
+                ok = wper is not None and bi is not None and wper.is_const() and bi.is_const() and C.same(wper * bi, bnum)
+                ctx.check(ok, f"{nm} [{key}, {bits}-bit keys]: a value occupies `wper` = {wper!r} words of {bi!r} bytes", node,
+                          None if ok else {"bytes per value": repr(C.norm(bnum))})
+    # the switch itself
+    t = C.fn_parts(C.norm(c["test"])) if _rat(c["test"]) else None
+    ok = t is not None and t[0] == "ge0"
+    if ok:
+        syms = {d[1] for d in C.walk_atoms(t[1][0] + cnt - cnt) if d[0] == "s"}
+        ok = any("utoff" in s for s in syms)
+    ctx.check(ok, f"{nm}{site_label}: the switch is on the tunable cut-off only", node, nontrivial=False)
 
 
 def r1_cutover_pairs(ctx):
-    # ---- op4: the three binary readers; formats arrive as parameters bound in _loadop4_binary
-    ld = M.func(ctx, "OP4._loadop4_binary")
-    arms = [s for s in ld.body if isinstance(s, ast.If) and ast.unparse(s.test).replace(" ", "") == "mtype&1"]
-    if len(arms) != 1:
-        raise AnchorError("_loadop4_binary: `if mtype & 1` format selection")
-    sel = {}
-    for arm, body in (("single", arms[0].body), ("double", arms[0].orelse)):
-        sel[arm] = {ast.unparse(s.targets[0]): ast.unparse(s.value) for s in body if isinstance(s, ast.Assign)}
-    ok = sel["single"].get("numform") == "self._str_sr" and sel["single"].get("numform2") == "self._str_sr_fromfile" \
-        and sel["single"].get("bytesreal") == "self._bytes_sr" and sel["single"].get("wper") == "1"
-    ctx.check(ok, "_loadop4_binary (odd type = single precision): struct format, numpy dtype and byte count are the single-precision triple, 1 word per value",
-              arms[0], sel["single"])
-    ok = sel["double"].get("numform") == "self._str_dr" and sel["double"].get("numform2") == "self._str_dr_fromfile" \
-        and sel["double"].get("bytesreal") == "8" and sel["double"].get("wper") == "self._wordsperdouble"
-    ctx.check(ok, "_loadop4_binary (even type = double precision): struct format, numpy dtype and byte count are the double triple", arms[0], sel["double"])
-    call = [c for c in ast.walk(ld) if isinstance(c, ast.Call) and dotted(c.func) == "rdfunc"]
-    want = ["fp", "wper", "r", "c", "abs(rows)", "cols", "nwords", "reclen", "bytesreal", "numform", "numform2", "funcs"]
-    ok = len(call) == 1 and [ast.unparse(a) for a in call[0].args] == want
-    ctx.check(ok, "_loadop4_binary passes (bytesreal, numform, numform2) to the reader in the positions the readers declare", call[0] if call else ld)
+    tbs = T.tables(ctx)
+    # ---- op4: the three binary readers, evaluated on the values `_loadop4_binary` passes them
     n4 = 0
-    for q in ("OP4._rd_dense_binary", "OP4._rd_bigmat_binary", "OP4._rd_nonbigmat_binary"):
-        fn = M.func(ctx, q)
-        params = [a.arg for a in fn.args.args]
-        ok = params[1:] == want[:4] + ["rows"] + want[5:]
-        ctx.check(ok, f"{q.split('.')[1]}: parameter order matches the call", fn, params, nontrivial=False)
-        sites = _cutover_sites(fn)
-        if len(sites) != 1:
-            ctx.error(f"{q}: cut-over site", fn, len(sites))
+    lf = ctx.src.func(OP4, "OP4._loadop4_binary")
+    for reader in ("_rd_dense_binary", "_rd_bigmat_binary", "_rd_nonbigmat_binary"):
+        rf = ctx.src.func(OP4, "OP4." + reader)
+        w, call = _loader_with(ctx, "_loadop4_binary", reader)
+        if w is None:
             continue
-        st, un, ff = sites[0]
+        sites = [c for c in w.cutovers if c["function"] == reader]
+        if len(sites) != 1:
+            ctx.error(f"{reader}: cut-over site", rf, len(sites))
+            continue
         n4 += 1
-        cnt = ast.unparse(st.test.left)
-        fmt, rd = ast.unparse(un.args[0]).replace(" ", ""), ast.unparse(un.args[1]).replace(" ", "")
-        ok = fmt == f"numform%{cnt}" and rd == f"fp.read(bytesreal*{cnt})"
-        ctx.check(ok, f"{q.split('.')[1]}: below the cut-over, {cnt} values of `numform` are unpacked from bytesreal * {cnt} bytes", un, {"fmt": fmt, "read": rd})
-        a = [ast.unparse(x) for x in ff.args]
-        ok = a == ["fp", "numform2", cnt]
-        ctx.check(ok, f"{q.split('.')[1]}: at or above the cut-over, the same {cnt} values are read with the numpy dtype `numform2`", ff, a)
-        ok = "cutoff" in ast.unparse(st.test.comparators[0])
-        ctx.check(ok, f"{q.split('.')[1]}: the switch is on the tunable cut-off only", st, nontrivial=False)
+        # words per value: parameter 1 of the reader (after the file) -- taken by position from the reader's own signature
+        params = [a.arg for a in rf.args.args][1:]
+        wv = None
+        ev = [e for e in w.events if e[0] == "unpack"]
+        # the value bound to the reader's 2nd parameter is what the loader passed there
+        bound = getattr(w, "bound", {}).get(id(rf))
+        if bound is not None and len(params) > 1:
+            wv = bound.get(params[1])
+        _check_site(ctx, "OP4." + reader, sites[0], tbs["op4"], extra=[wv])
     # ---- op2
     n2 = 0
-    for q in ("OP2.rdop2matrix", "OP2.rdop2record", "OP2.rdop2dynamics"):
-        if not ctx.src.has_func(OP2, q):
+    for name in ("rdop2matrix", "rdop2record", "rdop2dynamics"):
+        if not ctx.src.has_func(OP2, "OP2." + name):
             continue
-        fn = ctx.src.func(OP2, q)
-        for st, un, ff in _cutover_sites(fn):
+        w = _w2(ctx, name)
+        if w is None:
+            continue
+        for i, c in enumerate(w.cutovers):
             n2 += 1
-            if not (isinstance(un.args[0], ast.BinOp) and isinstance(un.args[0].op, ast.Mod)):
-                ctx.error(f"{q}: struct format shape", un, ast.unparse(un))
+            _check_site(ctx, "OP2." + name, c, tbs["op2"], site_label=f" (site {i + 1})" if len(w.cutovers) > 1 else "")
+    ctx.check(n4 == 3 and n2 >= 4, f"cut-over rule bound to {n4} op4 sites and {n2} op2 sites", OP4 + ":1", nontrivial=False)
+
+
+# ------------------------------------------------------------------------------------------------------------------ R2
+def r2_declared_sizes(ctx):
+    tbs = T.tables(ctx)
+    fn4, fn2 = tbs["fn"]["op4"], tbs["fn"]["op2"]
+    # ---- every struct decode of a file read reads exactly the size of its format (both key widths)
+    seen = set()
+    nsites = 0
+    jobs = [("op2", _w2, n) for n in ("_getkey", "rdop2eot", "rdop2nt", "rdop2matrix", "skipop2matrix", "rdop2record", "skipop2record",
+                                      "rdop2tabheaders", "rdop2dynamics")]
+    jobs += [("op4", _w4, n) for n in ("_skipop4_binary",)]
+    walks = []
+    for what, wf, n in jobs:
+        w = wf(ctx, n)
+        if w is not None:
+            walks.append((what, n, w))
+    for reader in ("_rd_dense_binary", "_rd_bigmat_binary", "_rd_nonbigmat_binary"):
+        w, _call = _loader_with(ctx, "_loadop4_binary", reader)
+        if w is not None:
+            walks.append(("op4", "_loadop4_binary/" + reader, w))
+    for what, n, w in walks:
+        reads = {repr(e[1]): e for e in w.events if e[0] == "read"}
+        for e in w.events:
+            if e[0] != "unpack" or id(e[3]) in seen:
                 continue
-            cnt = ast.unparse(un.args[0].right)
-            fmt_e, dt_e = un.args[0].left, ff.args[1]
-            rd = ast.unparse(un.args[1]).replace(" ", "")
-            nread = ast.unparse(ff.args[2]) if len(ff.args) > 2 else None
-            ok = nread == cnt
-            ctx.check(ok, f"{q.split('.')[1]}: both sides of the cut-over read `{cnt}` values", st, {"unpack": ast.unparse(un), "fromfile": ast.unparse(ff)})
-            if not ok:
+            rd = reads.get(repr(e[2]))
+            if rd is None:
                 continue
-            arms = {}
-            if isinstance(fmt_e, ast.Name) and isinstance(dt_e, ast.Name):
-                # every (struct format, dtype, bytes) triple that can reach this site
-                for s2, v in _resolve_local(fn, fmt_e.id, st.lineno):
-                    arms.setdefault(_arm_key(s2), {})["fmt"] = (v, s2)
-                for s2, v in _resolve_local(fn, dt_e.id, st.lineno):
-                    arms.setdefault(_arm_key(s2), {})["dt"] = (v, s2)
-                for s2, v in _resolve_local(fn, "bytes_per", st.lineno):
-                    arms.setdefault(_arm_key(s2), {})["bytes"] = (v, s2)
-            else:
-                arms["all"] = {"fmt": (ast.unparse(fmt_e), st), "dt": (ast.unparse(dt_e), st)}
-            for key, d in sorted(arms.items()):
-                if "fmt" not in d or "dt" not in d:
-                    continue
-                _check_triple(ctx, q, key, d, st)
-            if not (isinstance(fmt_e, ast.Name)):
+            seen.add(id(e[3]))
+            fmtv, cnt = e[1], None
+            p = C.fn_parts(fmtv) if _rat(fmtv) else None
+            if p is not None and p[0] in ("fmt", "mod") and len(p[1]) == 2:
+                fmtv, cnt = p[1]
+            try:
+                lvs = C.leaves([fmtv, rd[2]] + ([cnt] if cnt is not None else []))
+            except Unsupported as ex:
+                ctx.error(f"{n}: struct format selections", e[3], str(ex))
                 continue
-            # bytes read by the struct side
-            ok = rd in (f"self._fileh.read({cnt}*bytes_per)", "f.read(b)", f"f.read({cnt}*bytes_per)")
-            if rd == "f.read(b)":
-                bdef = [x for x in ast.walk(st) if isinstance(x, ast.Assign) and ast.unparse(x.targets[0]) == "b"]
-                ok = bool(bdef) and ast.unparse(bdef[0].value).replace(" ", "") == f"{cnt}*bytes_per"
-            ctx.check(ok, f"{q.split('.')[1]}: the struct side reads {cnt} * bytes_per bytes", un, rd)
-    ctx.check(n4 == 3 and n2 >= 3, f"cut-over rule bound to {n4} op4 sites and {n2} op2 sites", OP4 + ":1", nontrivial=False)
+            ok, bad, unresolved = True, None, None
+            for path, vals in lvs:
+                for bits in (32, 64):
+                    tb = tbs[what][bits]
+                    txt = T.strval(vals[0], tb)
+                    size = T.struct_size(txt, vals[2] if cnt is not None else None)
+                    nb = T.numval(C.norm(vals[1]), tb)
+                    if size is None or nb is None:
+                        unresolved = {"format": txt or repr(vals[0]), "bytes": repr(nb)}
+                        continue
+                    size = T.numval(C.norm(size), tb)
+                    if not C.same(size, nb):
+                        ok, bad = False, {"format": txt.replace(T.ENDIAN, ""), "size of the format": repr(size), "bytes read": repr(nb), "keys": f"{bits}-bit",
+                                          "binding": _leaf_label(path)}
+            if unresolved is not None and ok:
+                ctx.error(f"{n}: struct format of a decode cannot be resolved", e[3], unresolved)
+                continue
+            nsites += 1
+            ctx.check(ok, f"{n.split('/')[-1]}: the bytes read for a struct decode equal the size of its format, with 32- and 64-bit keys", e[3], bad)
+    ctx.check(nsites >= 14, f"decode-size rule bound to {nsites} struct decodes", fn2, nontrivial=False)
+    # ---- declared attributes (the state named by the property's anchors)
+    for bits, label, word in ((64, "64-bit", 8), (32, "32-bit", 4)):
+        tb = tbs["op4"][bits]
+        for nm, cnt in (("i", 1), ("ii", 2), ("iii", 3), ("iiii", 4)):
+            txt = T.strval(tb.get(f"self._Str_{nm}"), tb)
+            b = T.numval(tb.get(f"self._bytes_{nm}"), tb)
+            si = T.struct_items(txt)
+            if si is None or b is None or not b.is_const() or any(c == "%d" for c, _k in si[1]):
+                ctx.error(f"op4 {label}: _Str_{nm} / _bytes_{nm}", fn4, {"format": txt, "bytes": repr(b)})
+                continue
+            n = sum(c for c, _k in si[1])
+            size = sum(c * STRUCT_SIZE[k] for c, k in si[1])
+            ok = size == b.const_value() and n == cnt and all(STRUCT_SIZE[k] == word and STRUCT_KIND[k] == "int" for _c, k in si[1])
+            ctx.check(ok, f"op4 {label}: _bytes_{nm} = {b!r} equals the size of its struct format ({cnt} x {word} bytes)", fn4,
+                      None if ok else {"format": txt.replace(T.ENDIAN, ""), "bytes": repr(b)})
+        sr, srf, bsr = T.strval(tb.get("self._str_sr"), tb), T.strval(tb.get("self._str_sr_fromfile"), tb), T.numval(tb.get("self._bytes_sr"), tb)
+        si, dt = T.struct_items(sr), T.dtype_of(srf)
+        ok = si is not None and dt is not None and bsr is not None and bsr.is_const() and len(si[1]) == 1 \
+            and STRUCT_SIZE[si[1][0][1]] == dt[2] == bsr.const_value() and STRUCT_KIND[si[1][0][1]] == NP_KIND[dt[1]] == "float"
+        ctx.check(ok, f"op4 {label}: 'single-precision word' struct code, numpy dtype and byte count agree", fn4, {"struct": sr, "numpy": srf, "bytes": repr(bsr)})
+        wpd = T.numval(tb.get("self._wordsperdouble"), tb)
+        ok = wpd is not None and bsr is not None and wpd.is_const() and bsr.is_const() and wpd.const_value() * bsr.const_value() == 8
+        ctx.check(ok, f"op4 {label}: words per double = 8 / word size", fn4, {"wordsperdouble": repr(wpd), "bytes_sr": repr(bsr)})
+    tb = tbs["op4"][32]
+    dr, drf = T.strval(tb.get("self._str_dr"), tb), T.strval(tb.get("self._str_dr_fromfile"), tb)
+    si, dt = T.struct_items(dr), T.dtype_of(drf)
+    ok = si is not None and dt is not None and len(si[1]) == 1 and si[1][0] == ("%d", "d") and dt[1:] == ("f", 8)
+    ctx.check(ok, "op4: double struct code and numpy dtype agree (d / f8)", fn4, {"struct": dr, "numpy": drf})
+    for nm in ("_str_sr", "_str_dr", "_str_sr_fromfile", "_str_dr_fromfile"):
+        ok = all((T.strval(tbs["op4"][b].get("self." + nm), tbs["op4"][b]) or "").startswith(T.ENDIAN) for b in (32, 64))
+        ctx.check(ok, f"op4: {nm} carries the detected byte order", fn4, nontrivial=False)
+    for bits, label, isz in ((32, "32-bit", 4), (64, "64-bit", 8)):
+        tb = tbs["op2"][bits]
+        ib = T.numval(tb.get("self._ibytes"), tb)
+        di, si = T.dtype_of(T.strval(tb.get("self._intstr"), tb)), T.struct_items(T.strval(tb.get("self._intstru"), tb))
+        ok = di is not None and si is not None and ib is not None and ib.is_const() and len(si[1]) == 1 \
+            and di[2] == STRUCT_SIZE[si[1][0][1]] == ib.const_value() == isz and NP_KIND[di[1]] == STRUCT_KIND[si[1][0][1]] == "int" and di[0] == si[0] == T.ENDIAN
+        ctx.check(ok, f"op2 {label}: integer numpy dtype, struct code and _ibytes agree", fn2,
+                  {"intstr": T.strval(tb.get("self._intstr"), tb), "intstru": T.strval(tb.get("self._intstru"), tb), "ibytes": repr(ib)})
+        fb = T.numval(tb.get("self._fbytes"), tb)
+        dr_, sr_ = T.dtype_of(T.strval(tb.get("self._rfrm"), tb)), T.struct_items(T.strval(tb.get("self._rfrmu"), tb))
+        ok = dr_ is not None and sr_ is not None and fb is not None and fb.is_const() and len(sr_[1]) == 1 \
+            and dr_[2] == STRUCT_SIZE[sr_[1][0][1]] == fb.const_value() == isz and NP_KIND[dr_[1]] == STRUCT_KIND[sr_[1][0][1]] == "float" \
+            and dr_[0] == sr_[0] == T.ENDIAN
+        ctx.check(ok, f"op2 {label}: real numpy dtype, struct code and _fbytes agree", fn2,
+                  {"rfrm": T.strval(tb.get("self._rfrm"), tb), "rfrmu": T.strval(tb.get("self._rfrmu"), tb), "fbytes": repr(fb)})
+        sk = T.struct_items(T.strval(tb.get("self._Str"), tb))
+        ok = sk is not None and len(sk[1]) == 1 and sk[1][0][0] == 1 and STRUCT_SIZE[sk[1][0][1]] == isz and STRUCT_KIND[sk[1][0][1]] == "int"
+        ctx.check(ok, f"op2 {label}: key struct is {isz} bytes", fn2, T.strval(tb.get("self._Str"), tb))
 
 
-def _arm_key(st):
-    for a in ancestors(st):
-        if isinstance(a, ast.If):
-            t = ast.unparse(a.test)
-            inbody = any(st is y for x in a.body for y in ast.walk(x))
-            return t if inbody else f"not ({t})"
-    return "all"
+# ------------------------------------------------------------------------------------------------------------------ R3
+def _string_loops(w, reader_fn):
+    """(column loop, string loop) of a sparse reader inside a walk: the outermost loop whose node lies in the reader, and the loop in it"""
+    def inside(lp):
+        return any(lp.node is n for n in ast.walk(reader_fn))
+    cols = [lp for lp in C.loops_in(w.top.items) if inside(lp)]
+    outer = [lp for lp in cols if not any(lp is x for o in cols for x in C.loops_in(o.items))]
+    if len(outer) != 1:
+        return None, None
+    inner = C.loops_in(outer[0].items, deep=False)
+    return outer[0], (inner[0] if len(inner) == 1 else None)
 
 
-def _resolve_op2_attr(ctx, txt, bits):
-    """value of self._intstr etc. for a key width, following simple .replace() chains"""
-    fn = ctx.src.func(OP2, "OP2._op2open")
-    tb = _attr_table(fn, "reclen == 4")
-    m = re.match(r"self\.(_\w+)((?:\.replace\('.', '.'\))*)$", txt)
-    if m:
-        base = tb.get(m.group(1), {}).get("then" if bits == 32 else "else")
-        if base is None:
-            return None
-        lit = re.search(r"['\"]([^'\"]*)['\"]", base)
-        if not lit:
-            return None
-        s = lit.group(1)
-        for a, b in re.findall(r"\.replace\('(.)', '(.)'\)", m.group(2)):
-            s = s.replace(a, b)
-        return s
-    lit = re.search(r"['\"]([^'\"]*)['\"]", txt)
-    return lit.group(1) if lit else None
+def _put_calls(w, lp):
+    """calls, inside one loop frame, of element 1 of the (init, put, return) triple the reader was given"""
+    out = []
+    for e in w.events:
+        if e[0] == "call" and e[6] is not None and _rat(e[6]) and e[7].equals(lp.frame):
+            p = C.fn_parts(e[6])
+            if p is not None and p[0] == "idx" and _rat(p[1][1]) and p[1][1].equals(F.const(1)):
+                out.append(e)
+    return out
 
 
-def _check_triple(ctx, q, key, d, site):
-    for bits in (32, 64):
-        f_, dt_ = _resolve_op2_attr(ctx, d["fmt"][0], bits), _resolve_op2_attr(ctx, d["dt"][0], bits)
-        if f_ is None or dt_ is None:
-            ctx.error(f"{q}: cannot resolve formats in arm `{key}`", d["fmt"][1], f"{d['fmt'][0]} / {d['dt'][0]}")
-            return
-        ps = re.search(r"(%d|\d*)([iIqQfd])$", f_)
-        pn = re.search(r"([iuf])(\d)$", dt_)
-        if not ps or not pn:
-            ctx.error(f"{q}: unparsed formats in arm `{key}`", d["fmt"][1], f"{f_} / {dt_}")
-            return
-        code, (kind, size) = ps.group(2), (pn.group(1), int(pn.group(2)))
-        ok = STRUCT_SIZE[code] == size and STRUCT_KIND[code] == NP_KIND[kind]
-        by = d.get("bytes")
-        if ok and by is not None:
-            bv = by[0]
-            if bv.startswith("self."):
-                tb = _attr_table(ctx.src.func(OP2, "OP2._op2open"), "reclen == 4")
-                bv = tb.get(bv[5:], {}).get("then" if bits == 32 else "else")
-            ok = bv is not None and int(bv) == size
-        ctx.check(ok, f"{q.split('.')[1]} [{key}, {bits}-bit keys]: struct code '{code}' and numpy dtype '{kind}{size}' decode the same type on both sides of the "
-                      "3000-value cut-over", d["fmt"][1],
-                  None if ok else {"struct": f_, "numpy": dt_,
-                                   "witness": "a 64-bit-key 'uint' record holding a word >= 2^63 with fewer than 3000 values: struct decodes it as negative and "
-                                              "storing it into the u8 array raises OverflowError; with >= 3000 values np.fromfile returns 2^64 - 1"},
-                  key=f"C11-R1|{q}|{key}|{bits}|{f_}|{dt_}")
+def _header_field(v, anywhere=False):
+    """a decoded header field -> (kind, field number, source atom): binary word k of the read at the start of the frame, or the k-th
+    8-column field of the line read at the start of the frame (the whole line = field 0)"""
+    p = C.fn_parts(v) if _rat(v) else None
+    if p is None:
+        return None
+    if p[0] == "idx" and _rat(p[1][0]) and _rat(p[1][1]) and p[1][1].is_const():
+        q = C.fn_parts(p[1][0])
+        if q is not None and q[0] == "dec":
+            r = C.fn_parts(q[1][0])
+            if r is not None and r[0] == "rd" and (r[1][1].is_zero() or anywhere):
+                return "word", int(p[1][1].const_value()), q[1][0]
+    if p[0] == "call:int" and len(p[1]) == 1 and _rat(p[1][0]):
+        q = C.fn_parts(p[1][0])
+        if q is not None and q[0] == "ln" and q[1][1].is_zero():
+            return "line", 0, p[1][0]
+        if q is not None and q[0] == "idx":
+            base, sl = C.fn_parts(q[1][0]), C.fn_parts(q[1][1]) if _rat(q[1][1]) else None
+            if base is not None and base[0] == "ln" and base[1][1].is_zero() and sl is not None and sl[0] in ("call:slice", "slice"):
+                a, b = sl[1][0], sl[1][1]
+                if _rat(a) and _rat(b) and a.is_const() and b.is_const() and b.const_value() - a.const_value() == 8 and a.const_value() % 8 == 0:
+                    return "field", int(a.const_value() // 8), q[1][0]
+    return None
+
+
+def _words_in(values):
+    """the arguments of hi16(.) / lo16(.) occurring in some formulas"""
+    out = []
+    for v in values:
+        if not _rat(v):
+            continue
+        for d in C.walk_atoms(v):
+            if d[0] == "fn" and d[1] in ("hi16", "lo16"):
+                a = C._arg(d[2][0])
+                if not any(a.equals(x) for x in out):
+                    out.append(a)
+    return out
 
 
 def r3_sibling_decoders(ctx):
-    """the nonbigmat / bigmat header arithmetic is the same function of the header words in every decoder"""
-    hi, lo = F.sym("hi"), F.sym("lo")
-    IS = hi * 65536 + lo
+    """the string-header arithmetic is the same function of the header words in the ASCII reader, the binary reader and the skipper, and the
+    data read for a string is what its header announces"""
     res = {}
-    for q in ("OP4._rd_nonbigmat_ascii", "OP4._rd_nonbigmat_binary", "OP4._skipop4_ascii"):
-        fn = M.func(ctx, q)
-        inner = None
-        for n in ast.walk(fn):
-            if isinstance(n, ast.While) and ast.unparse(n.test).replace(" ", "") in ("elems>0", "nwords>0") and \
-                    "IS" in {x.id for x in ast.walk(n) if isinstance(x, ast.Name)}:
-                inner = n
-        if inner is None:
-            ctx.error(f"{q}: nonbigmat string loop", fn)
+    for loader, reader, kind in (("_loadop4_ascii", "_rd_nonbigmat_ascii", "nonbigmat"), ("_loadop4_binary", "_rd_nonbigmat_binary", "nonbigmat"),
+                                 ("_loadop4_ascii", "_rd_bigmat_ascii", "bigmat"), ("_loadop4_binary", "_rd_bigmat_binary", "bigmat")):
+        rf = ctx.src.func(OP4, "OP4." + reader)
+        w, call = _loader_with(ctx, loader, reader)
+        if w is None:
             continue
-        cnt = ast.unparse(inner.test.left)
-
-        def call(node, ev):
-            d = dotted(node.func) or ""
-            if d == "int":
-                return IS
-            if d == "s1" or d.endswith("read") or d.endswith("readline") or d == "put" or d.endswith("_get_ascii_block") \
-                    or d in ("struct.unpack", "np.fromfile", "it.repeat"):
-                return F.const(0)
-            return NotImplemented
-
-        ev = Evaluator(env={cnt: F.sym("W"), "wper": F.sym("wper"), "perline": F.sym("perline")}, src=ctx.src, call=call,
-                       binop=M.int_binop({repr(lo): 16}))
-        for st in inner.body:
-            if isinstance(st, ast.Assign) and isinstance(st.value, ast.Subscript) and isinstance(st.value.value, ast.Call) \
-                    and dotted(st.value.value.func) == "s1":
-                ev.env[st.targets[0].id] = IS
-                continue
-            if isinstance(st, (ast.If, ast.For)):
-                continue
-            ev.stmt(st)
-        res[q] = (ev.env, cnt, inner)
-    want_L = F.fn("floordiv", hi - 1, F.sym("wper"))
-    for q, (env, cnt, inner) in res.items():
-        L, dec = env.get("L"), F.sym("W") - env[cnt] if not is_unknown(env.get(cnt)) else None
-        ok = L is not None and not is_unknown(L) and L.equals(want_L)
-        ctx.check(ok, f"{q.split('.')[1]}: values per string = ((IS >> 16) - 1) // words-per-value", inner, None if ok else repr(L))
-        ok = dec is not None and dec.equals(hi)
-        ctx.check(ok, f"{q.split('.')[1]}: words consumed per string = IS >> 16 (L + 1)", inner, None if ok else repr(env.get(cnt)))
-        if "skip" not in q:
-            r = env.get("r")
-            ok = r is not None and not is_unknown(r) and r.equals(lo - 1)
-            ctx.check(ok, f"{q.split('.')[1]}: first row = (low 16 bits of IS) - 1, for every row up to 65535", inner,
-                      None if ok else f"{r}" + " (the ASCII and binary decoders must place the same string at the same row)",
-                      key=f"C11-R3|{q}|first row")
-    # bigmat siblings
-    Lr, rr = F.sym("Lraw"), F.sym("rraw")
-    resb = {}
-    for q in ("OP4._rd_bigmat_ascii", "OP4._rd_bigmat_binary", "OP4._skipop4_ascii"):
-        rd = None
-        try:
-            rd = M.string_reader(ctx, q, "bigmat", L_raw=Lr, r_raw=rr)
-        except AnchorError:
-            # the skipper has two `while elems > 0` loops; pick the one without IS
-            pass
-        if rd is None:
-            ctx.error(f"{q}: bigmat string loop", M.func(ctx, q))
+        col, lp = _string_loops(w, rf)
+        if lp is None:
+            ctx.error(f"{reader}: {kind} string loop", rf)
             continue
-        resb[q] = rd
-    for q, rd in resb.items():
-        env = rd["env"]
-        L, cnt = env.get("L"), env.get(rd["count"])
-        ok = L is not None and not is_unknown(L) and L.equals(F.fn("floordiv", Lr - 1, F.sym("wper")))
-        ctx.check(ok, f"{q.split('.')[1]}: bigmat values per string = (L_header - 1) // words-per-value", rd["loop"], None if ok else repr(L))
-        ok = cnt is not None and not is_unknown(cnt) and (F.sym("W") - cnt).equals(Lr + 1)
-        ctx.check(ok, f"{q.split('.')[1]}: bigmat words consumed per string = L_header + 1", rd["loop"], None if ok else repr(cnt))
-        if "skip" not in q:
-            r = env.get("r")
-            ok = r is not None and not is_unknown(r) and r.equals(rr - 1)
-            ctx.check(ok, f"{q.split('.')[1]}: bigmat first row = header row - 1", rd["loop"], None if ok else repr(r))
-    # number of text lines per string: (L + perline - 1)//perline (skip) == (L - 1)//perline + 1 (read)
-    sk = M.func(ctx, "OP4._skipop4_ascii")
-    gb = M.func(ctx, "OP4._get_ascii_block")
-    a = utext(sk).count("nlines=(L+perline-1)//perline")
-    b = "nlines=(L-1)//perline+1" in utext(gb)
-    ctx.check(a == 2 and b, "_skipop4_ascii skips ceil(L / perline) lines per string, the number _get_ascii_block reads ((L + p - 1)//p == (L - 1)//p + 1 for L >= 1)", sk)
-    ok = utext(sk).count("nlines=(elems+perline-1)//perline") == 1
-    ctx.check(ok, "_skipop4_ascii skips ceil(elems / perline) lines per dense column", sk)
-    t = utext(sk)
-    ok = "ifmtype&1:wper=1else:wper=2" in t.replace("\n", "")
-    rd = M.func(ctx, "OP4._loadop4_ascii")
-    ok = ok and "wper=1ifmtype&1else2" in utext(rd)
-    ctx.check(ok, "ASCII skipper and loader derive words-per-value from the matrix type identically", sk)
+        bound = w.bound.get(id(rf), {})
+        params = [a.arg for a in rf.args.args][1:]
+        binary = "binary" in reader
+        wper = bound.get(params[1] if binary else params[0])
+        P, dec = _counter(lp)
+        puts = _put_calls(w, lp)
+        if P is None or len(puts) != 1 or not _rat(wper):
+            ctx.error(f"{reader}: words-left counter / store call of the string loop", lp.node, {"counter": repr(P), "stores": len(puts)})
+            continue
+        pos = puts[0][2]
+        r = pos[1] if len(pos) > 1 else None
+        if binary:
+            sites = [c for c in w.cutovers if c["function"] == reader]
+            L = sites[0]["count_ff"] if len(sites) == 1 else None
+        else:
+            L = pos[4] if len(pos) > 4 else None
+        res[reader] = dict(w=w, lp=lp, P=P, dec=dec, r=r, L=L, wper=wper, kind=kind, binary=binary, perline=bound.get("perline"), put=puts[0], bound=bound,
+                           params=params)
+    for reader, d in res.items():
+        lp, dec, r, L, wper = d["lp"], d["dec"], d["r"], d["L"], d["wper"]
+        if d["kind"] == "nonbigmat":
+            ws = _words_in([dec, r, L])
+            hf = _header_field(ws[0]) if len(ws) == 1 else None
+            if hf is None or hf[1] != 0 or hf[0] == "field":
+                ctx.error(f"{reader}: the packed header word of a string", lp.node, [repr(x) for x in ws])
+                continue
+            W = ws[0]
+            hi, lo = F.fn("hi16", W), F.fn("lo16", W)
+            ok = _rat(L) and C.same(L, C.floordiv(hi - 1, wper), whole_values=False)
+            ctx.check(ok, f"{reader}: values per string = ((IS >> 16) - 1) // words-per-value", lp.node, None if ok else repr(L))
+            ok = _rat(dec) and C.same(dec, hi)
+            ctx.check(ok, f"{reader}: words consumed per string = IS >> 16 (L + 1)", lp.node, None if ok else repr(dec))
+            ok = _rat(r) and C.same(r, lo - 1)
+            ctx.check(ok, f"{reader}: first row = (low 16 bits of IS) - 1, for every row up to 65535", lp.node,
+                      None if ok else f"{r!r} (the ASCII and binary decoders must place the same string at the same row)",
+                      key=f"C11-R3|OP4.{reader}|first row")
+        else:
+            f0 = _header_field(dec - 1) if _rat(dec) else None
+            f1 = _header_field(r + 1) if _rat(r) else None
+            if f0 is None or f1 is None:
+                # the arithmetic is not `header + 1` / `header - 1` of single header fields: report what it is
+                ctx.check(False, f"{reader}: bigmat words consumed per string = L_header + 1 and first row = header row - 1", lp.node,
+                          {"words": repr(dec), "row": repr(r)})
+                continue
+            W0 = dec - 1
+            ok = f0[1] == 0 and f1[1] == 1 and f0[0] == f1[0] and repr(f0[2]) == repr(f1[2])
+            ctx.check(ok, f"{reader}: the string length is header field 1 and the row is header field 2 of the same header", lp.node,
+                      None if ok else {"length": f0[:2], "row": f1[:2]})
+            ok = _rat(L) and C.same(L, C.floordiv(W0 - 1, wper), whole_values=False)
+            ctx.check(ok, f"{reader}: bigmat values per string = (L_header - 1) // words-per-value", lp.node, None if ok else repr(L))
+            ctx.ok(f"{reader}: bigmat words consumed per string = L_header + 1", lp.node)
+            ctx.ok(f"{reader}: bigmat first row = header row - 1", lp.node)
+        # the data read for the string is what the header announces
+        if d["binary"]:
+            tot = C.total(lp.items, "B")
+            tbs = T.tables(ctx)["op4"]
+            good, detail = tot is not None and _rat(dec), None
+            if good:
+                for path, (t_, d_) in C.leaves([tot, dec]):
+                    for bits in (32, 64):
+                        a, b = T.numval(C.norm(t_), tbs[bits]), T.numval(C.norm(d_ * F.sym("self._bytes_i")), tbs[bits])
+                        if a is None or b is None or not C.same(a, b):
+                            good, detail = False, {"bytes read per string": repr(a), "words counted x word size": repr(b), "keys": f"{bits}-bit", "binding": _leaf_label(path)}
+            ctx.check(good, f"{reader}: the bytes read per string (header + data) equal the words counted off for it x the word size, for both "
+                            "precisions and key widths", lp.node, detail)
+        else:
+            tot = C.total(lp.items, "L")
+            pl = d["perline"]
+            ok = tot is not None and _rat(L) and _rat(pl) and C.same(tot, 2 + C.floordiv(L - 1, pl), whole_values=False)
+            ctx.check(ok, f"{reader}: a string is one header line plus ceil(L / perline) data lines for the L values it stores", lp.node,
+                      None if ok else {"lines": repr(tot), "values": repr(L)})
+    # words per value: the ASCII skipper and the ASCII loader derive it from the matrix type identically
+    sk = _w4(ctx, "_skipop4_ascii")
+    la, call = _loader_with(ctx, "_loadop4_ascii", "_rd_nonbigmat_ascii")
+    if sk is not None and la is not None:
+        skf = ctx.src.func(OP4, "OP4._skipop4_ascii")
+        skipcalls = [e for e in la.events if e[0] == "call" and e[1] == "self._skipop4_ascii"]
+        mt = None
+        if len(skipcalls) == 1:
+            a = place(skipcalls[0][2], skipcalls[0][3], [x.arg for x in skf.args.args][1:])
+            mt = a.get("mtype")
+        rd = res.get("_rd_nonbigmat_ascii")
+        want = None
+        if _rat(mt) and rd is not None:
+            want = C.renamer([(mt, F.sym("mtype"))])(rd["wper"])
+        # the skipper's own words-per-value: the divisor of its string length
+        got = None
+        for lp in C.loops_in(sk.top.items):
+            P, dec = _counter(lp)
+            if P is not None and _rat(dec) and _words_in([dec]):
+                W = _words_in([dec])[0]
+                tot = C.total(lp.items, "L")
+                for cand in ([want] if want is not None else []):
+                    if tot is not None and C.same(tot, 2 + C.floordiv(C.floordiv(F.fn("hi16", W) - 1, cand) - 1, F.sym("perline")), whole_values=False):
+                        got = cand
+        ok = want is not None and got is not None
+        ctx.check(ok, "ASCII skipper and loader derive words-per-value from the matrix type identically", skf,
+                  None if ok else {"loader": repr(want)})
+    # sentinel: every reader evaluated
+    ctx.check(len(res) == 4, f"sibling rule bound to {len(res)} string readers", OP4 + ":1", nontrivial=False)
+
+
+# ------------------------------------------------------------------------------------------------------------------ R4
+def _strip_exit(items):
+    items = list(items)
+    while items and items[-1][0] == "exit":
+        items.pop()
+    return items
+
+
+def _after_loops(items, cont=()):
+    """[(loop, items that follow it up to the end of the path)] for every loop of an item list, branches followed"""
+    out = []
+    items = list(items)
+    for i, it in enumerate(items):
+        rest = items[i + 1:] + list(cont)
+        if it[0] == "loop":
+            out.append((it[1], rest))
+            out.extend(_after_loops(it[1].items, ()))
+        elif it[0] == "if":
+            for arm in (it[2], it[3]):
+                ends = any(x[0] == "exit" for x in arm)
+                out.extend(_after_loops(arm, () if ends else rest))
+    return out
+
+
+def _until_exit(items):
+    out = []
+    for it in items:
+        if it[0] == "exit":
+            break
+        out.append(it)
+    return out
 
 
 def r4_read_equals_skip(ctx):
-    """per physical record, a reader and its skipper advance the file by the same number of bytes"""
-    b = F.sym("reclen")
-    ib = F.sym("ibytes")
-    # rdop2matrix: 4 (reclen) + ibytes (row) + n * bytes_per + 4 ; with n = (reclen - ibytes)//bytes_per
-    fn = ctx.src.func(OP2, "OP2.rdop2matrix")
-    t = utext(fn)
-    ok = "reclen=self._Str4.unpack(self._fileh.read(4))[0]" in t and "r=self._Str.unpack(self._fileh.read(intsize))[0]-1" in t \
-        and "n=(reclen-intsize)//bytes_per" in t and "intsize=self._ibytes" in t and "self._fileh.read(n*bytes_per)" in t \
-        and "np.fromfile(self._fileh,frm,n)" in t and "self._fileh.read(4)#endrec" not in t
-    ctx.check(ok, "rdop2matrix: per record reads 4 + ibytes + n*bytes_per + 4 bytes with n = (reclen - ibytes)//bytes_per (= 4 + reclen + 4 for whole values)", fn)
-    sk = ctx.src.func(OP2, "OP2.skipop2matrix")
-    t2 = utext(sk)
-    ok = "reclen=self._Str4.unpack(self._fileh.read(4))[0]" in t2 and "self._fileh.seek(reclen,1)" in t2 and t2.count("self._fileh.read(4)") >= 2
-    ctx.check(ok, "skipop2matrix: per record skips 4 + reclen + 4 bytes", sk)
-    # key structure identical
-    def keyskel(f):
-        out = []
-        for n in ast.walk(f):
-            if isinstance(n, ast.Call) and dotted(n.func) in ("self._getkey", "self.rdop2eot", "self._skipkey"):
-                out.append((n.lineno, dotted(n.func)))
-        return [x[1] for x in sorted(out)]
-    ok = keyskel(fn) == keyskel(sk)
-    ctx.check(ok, "rdop2matrix and skipop2matrix read the same sequence of keys (column key, record keys, two trailing keys, end-of-table)", sk,
-              {"read": keyskel(fn), "skip": keyskel(sk)})
-    whiles_r = [ast.unparse(n.test) for n in ast.walk(fn) if isinstance(n, ast.While)]
-    whiles_s = [ast.unparse(n.test) for n in ast.walk(sk) if isinstance(n, ast.While)]
-    ctx.check(whiles_r == whiles_s, "rdop2matrix and skipop2matrix loop on the same conditions (dtype > 0, key > 0)", sk, {"read": whiles_r, "skip": whiles_s})
-    # rdop2record (three loops) vs skipop2record
-    fn = ctx.src.func(OP2, "OP2.rdop2record")
-    loops = [n for n in ast.walk(fn) if isinstance(n, ast.While) and ast.unparse(n.test).replace(" ", "") == "key>0"]
-    ctx.check(len(loops) == 3, "rdop2record: three record loops (bytes, preallocated, list)", fn, len(loops), nontrivial=False)
-    for lp in loops:
-        t = utext(lp)
-        reads = "reclen=self._Str4.unpack(f.read(4))[0]" in t and t.count("f.read(4)") >= 2 and "key=self._getkey()" in t
-        if "data.append(f.read(reclen))" in t:
-            payload = True
+    """a reader and its skipper advance the file by the same bytes / lines, loop on the same decoded words and stop at the same place"""
+    # ---- keys
+    gk, skp = _w2(ctx, "_getkey"), _w2(ctx, "_skipkey")
+    if gk is not None:
+        tot = C.total(_strip_exit(gk.top.items), "B")
+        ok = tot is not None and C.same(tot, KEY)
+        ctx.check(ok, "_getkey: a key is 4 + ibytes + 4 bytes", gk.fn, None if ok else C.show(gk.top.items))
+    if skp is not None and gk is not None:
+        tot = C.total(_strip_exit(skp.top.items), "B")
+        n = F.sym(skp.fn.args.args[1].arg) if len(skp.fn.args.args) > 1 else None
+        ok = tot is not None and n is not None and C.same(tot, n * KEY)
+        ctx.check(ok, "_skipkey(n): n keys of 8 + ibytes bytes, what n calls of _getkey consume", skp.fn, None if ok else C.show(skp.top.items))
+    # ---- matrix
+    rm, sm = _w2(ctx, "rdop2matrix"), _w2(ctx, "skipop2matrix")
+    if rm is not None and sm is not None:
+        why = []
+        ok = C.same_items(_strip_exit(rm.top.items), _strip_exit(sm.top.items), why=why)
+        ctx.check(ok, "rdop2matrix and skipop2matrix consume the same bytes record by record, loop on the same keys (column key, record keys, two "
+                      "trailing keys, end-of-table) and stop at the same place [whole values: reclen = ibytes + n * bytes_per]", sm.fn,
+                  None if ok else {"first difference": why[:1], "read": C.show(rm.top.items)[:400], "skip": C.show(sm.top.items)[:400]})
+        lps = C.loops_in(rm.top.items)
+        rec = [lp for lp in lps if not C.loops_in(lp.items)]
+        ok = len(rec) == 1 and C.total(rec[0].items, "B") is not None
+        word = F.fn("idx", F.fn("dec", F.fn("rd", rec[0].frame, F.const(0), F.const(4))), F.const(0)) if ok else None
+        ok = ok and C.same(C.total(rec[0].items, "B"), 4 + word + 4 + KEY)
+        ctx.check(ok, "rdop2matrix: per record reads 4 + ibytes + n*bytes_per + 4 bytes with n = (reclen - ibytes)//bytes_per (= 4 + reclen + 4 for whole "
+                      "values), on both sides of the cut-over", rec[0].node if rec else rm.fn, None if ok else C.show(rm.top.items)[:400])
+    if sm is not None:
+        rec = [lp for lp in C.loops_in(sm.top.items) if not C.loops_in(lp.items)]
+        ok = len(rec) == 1 and C.total(rec[0].items, "B") is not None
+        word = F.fn("idx", F.fn("dec", F.fn("rd", rec[0].frame, F.const(0), F.const(4))), F.const(0)) if ok else None
+        ok = ok and C.same(C.total(rec[0].items, "B"), 4 + word + 4 + KEY, whole_values=False)
+        ctx.check(ok, "skipop2matrix: per record skips 4 + reclen + 4 bytes", rec[0].node if rec else sm.fn, None if ok else C.show(sm.top.items)[:400])
+    # ---- records
+    rr, sr = _w2(ctx, "rdop2record"), _w2(ctx, "skipop2record")
+    sk_loop = None
+    if sr is not None:
+        al = _after_loops(sr.top.items)
+        ok = len(al) == 1
+        if ok:
+            sk_loop, tail = al[0]
+            word = F.fn("idx", F.fn("dec", F.fn("rd", sk_loop.frame, F.const(0), F.const(4))), F.const(0))
+            pre = C.total(_until_exit([it for it in sr.top.items if it[0] != "loop"][:1]), "B")
+            ok = C.total(sk_loop.items, "B") is not None and C.same(C.total(sk_loop.items, "B"), 4 + word + 4 + KEY, whole_values=False) \
+                and C.total(_until_exit(tail), "B") is not None and C.same(C.total(_until_exit(tail), "B"), 2 * KEY)
+        ctx.check(ok, "skipop2record: per record 4 + (reclen + 4) bytes, then the two trailing keys", sr.fn, None if ok else C.show(sr.top.items)[:400])
+    if rr is not None:
+        al = _after_loops(rr.top.items)
+        ctx.check(len(al) == 3, "rdop2record: three record loops (bytes, preallocated, list)", rr.fn, len(al), nontrivial=False)
+        ntail = 0
+        for lp, tail in al:
+            why = []
+            ok = sk_loop is not None
+            if ok:
+                ren = C.renamer([(lp.frame, F.sym("LOOP"))])
+                ren2 = C.renamer([(sk_loop.frame, F.sym("LOOP"))])
+                ok = C.same_loops(C.map_loop(lp, ren), C.map_loop(sk_loop, ren2), why=why)
+            ctx.check(ok, "rdop2record loop: per record 4 + reclen + 4 bytes and the next key, exactly what skipop2record skips (payload read as "
+                          "n = reclen // bytes_per values of bytes_per bytes, on both sides of the cut-over)", lp.node,
+                      None if ok else {"first difference": why[:1], "loop": C.show(lp.items)[:300]})
+            t = C.total(_until_exit(tail), "B")
+            ntail += t is not None and C.same(t, 2 * KEY)
+        ctx.check(ntail == len(al) and ntail > 0, "rdop2record: two trailing keys are skipped on every exit that follows a record loop", rr.fn)
+    # ---- table headers and DYNAMICS: a record of `key` words
+    for name, label in (("rdop2tabheaders", "rdop2tabheaders: per record 4 + 3*ibytes + (key - 3)*ibytes + 4 bytes (= 4 + key*ibytes + 4; reclen = key * ibytes)"),
+                        ("rdop2dynamics", "rdop2dynamics: per record 4 + 3*ibytes + (key - 3)*ibytes + 4 bytes whichever of the three routes (struct, fromfile, seek) "
+                                          "takes the payload")):
+        w = _w2(ctx, name)
+        if w is None:
+            continue
+        rec = [(lp, tail) for lp, tail in _after_loops(w.top.items) if not C.loops_in(lp.items) and C.tidy(lp.items)]
+        ok = len(rec) == 1
+        detail = None
+        if ok:
+            lp, tail = rec[0]
+            P, _dec = _counter(lp)
+            tot = C.total(lp.items, "B")
+            ok = P is not None and tot is not None and C.same(tot, 4 + P * KEYB + 4 + KEY)
+            if not ok:
+                detail = C.show(lp.items)[:400]
+            if ok:
+                # what follows the record loop inside the table loop: two keys, then the end-of-table key
+                t2 = C.tidy(_until_exit(tail))
+                ok = len(t2) >= 1 and t2[0][0] == "B" and len(t2) >= 2 and t2[1][0] == "if" and C.same(t2[0][1], 2 * KEY + 4)
+                if not ok:
+                    detail = C.show(tail)[:300]
+        ctx.check(ok, label + "; two trailing keys and the end-of-table key follow", w.fn, detail)
+    # ---- op4 binary: record = [4][3 words][payload][4]
+    tbs = T.tables(ctx)["op4"]
+    sb = _w4(ctx, "_skipop4_binary")
+    sk_test = None
+    if sb is not None:
+        lps = C.loops_in(sb.top.items)
+        ok = len(lps) == 1 and C.total(lps[0].items, "B") is not None
+        if ok:
+            lp = lps[0]
+            word = F.fn("idx", F.fn("dec", F.fn("rd", lp.frame, F.const(0), F.const(4))), F.const(0))
+            ok = C.same(C.total(lp.items, "B"), 4 + word + 4, whole_values=False)
+            # stops after the sentinel column: the loop runs while the column number just read is <= cols
+            t = C.fn_parts(C.norm(lp.test))
+            ps = _lv_in(lp.test, lp.frame)
+            upd = [v for p, v in lp.carry if len(ps) == 1 and p.equals(ps[0])]
+            hf = _header_field(upd[0], anywhere=True) if len(upd) == 1 and _rat(upd[0]) else None
+            cols = F.sym(sb.fn.args.args[1].arg) if len(sb.fn.args.args) > 1 else None
+            ok = ok and t is not None and t[0] == "ge0" and len(ps) == 1 and cols is not None and C.same(t[1][0], cols - ps[0]) \
+                and hf is not None and hf[0] == "word" and hf[1] == 0
+            # the column number is the first word after the record length
+            if ok:
+                r = C.fn_parts(hf[2])
+                ok = r is not None and C.same(r[1][1], F.const(4))
+                sk_test = True
+        ctx.check(ok, "_skipop4_binary: per column record 4 + reclen + 4 bytes; the column number is the first header word; stops after the sentinel "
+                      "column cols + 1", sb.fn, None if ok else C.show(sb.top.items)[:300])
+    for reader in ("_rd_dense_binary", "_rd_bigmat_binary", "_rd_nonbigmat_binary"):
+        rf = ctx.src.func(OP4, "OP4." + reader)
+        w, call = _loader_with(ctx, "_loadop4_binary", reader)
+        if w is None:
+            continue
+        cols_l = [lp for lp in C.loops_in(w.top.items) if any(lp.node is n for n in ast.walk(rf))]
+        outer = [lp for lp in cols_l if not any(lp is x for o in cols_l for x in C.loops_in(o.items))]
+        if len(outer) != 1:
+            ctx.error(f"{reader}: column loop", rf)
+            continue
+        col = outer[0]
+        bound = w.bound.get(id(rf), {})
+        params = [a.arg for a in rf.args.args][1:]
+        # entry: what the loader read before the first column = the head of a record [4][3 words]
+        head = 4 + F.sym("self._bytes_iii")
+        # per column: payload + end marker + head of the next record
+        body = C.tidy(col.items)
+        if reader == "_rd_dense_binary":
+            tot = C.total(body, "B")
+            nw = bound.get("nwords")
+            nwp = [p for p, _v in col.carry if _rat(nw) and C.fn_parts(p)[1][1].equals(nw)]
+            good, detail = tot is not None and len(nwp) == 1, None
+            if good:
+                for path, (t_,) in C.leaves([tot]):
+                    for bits in (32, 64):
+                        a = T.numval(C.norm(t_), tbs[bits])
+                        b = T.numval(C.norm(nwp[0] * F.sym("self._bytes_i") + 4 + head), tbs[bits])
+                        if a is None or b is None or not C.same(a, b):
+                            good, detail = False, {"bytes read per column": repr(a), "nwords x word size + end marker + next head": repr(b), "keys": f"{bits}-bit",
+                                                   "binding": _leaf_label(path)}
+            ctx.check(good, f"{reader}: per column the payload is nwords words of the key width (both precisions, both key widths), followed by the "
+                            "end marker and the 4 + 3-word head of the next record", col.node, detail)
         else:
-            payload = "n=reclen//bytes_per" in t and ("f.read(b)" in t and "b=n*bytes_per" in t) and "np.fromfile(f,frm,n)" in t
-        ctx.check(reads and payload, "rdop2record loop: per record 4 + reclen + 4 bytes (payload read as n = reclen // bytes_per values of bytes_per bytes)", lp)
-    ok = utext(fn).count("self._skipkey(2)") == 2
-    ctx.check(ok, "rdop2record: two trailing keys are skipped on both exits", fn)
-    sk = ctx.src.func(OP2, "OP2.skipop2record")
-    t = utext(sk)
-    ok = "self._fileh.seek(reclen+4,1)" in t and "reclen=self._Str4.unpack(self._fileh.read(4))[0]" in t and "self._skipkey(2)" in t and "whilekey>0" in t
-    ctx.check(ok, "skipop2record: per record 4 + (reclen + 4) bytes, then the two trailing keys", sk)
-    th = ctx.src.func(OP2, "OP2.rdop2tabheaders")
-    t = utext(th)
-    ok = "head=Frm.unpack(self._fileh.read(3*self._ibytes))" in t and "self._fileh.seek((key-3)*self._ibytes,1)" in t and "Frm=struct.Struct(self._intstru%3)" in t
-    ctx.check(ok, "rdop2tabheaders: per record 4 + 3*ibytes + (key - 3)*ibytes + 4 bytes (= 4 + key*ibytes + 4; reclen = key * ibytes)", th)
-    gk = ctx.src.func(OP2, "OP2._getkey")
-    t = utext(gk)
-    ok = t.count("self._fileh.read(4)") == 2 and "self._Str.unpack(self._fileh.read(self._ibytes))[0]" in t
-    ctx.check(ok, "_getkey: a key is 4 + ibytes + 4 bytes", gk)
-    s2 = ctx.src.func(OP2, "OP2._skipkey")
-    ok = "self._fileh.read(n*(8+self._ibytes))" in utext(s2)
-    ctx.check(ok, "_skipkey(n): n keys of 8 + ibytes bytes", s2)
-    # op4 binary skip vs read: record = 4 + reclen + 4
-    sb = M.func(ctx, "OP4._skipop4_binary")
-    t = utext(sb)
-    ok = "reclen=self._Str_i4.unpack(self._fileh.read(4))[0]" in t and "icol=self._Str_i.unpack(self._fileh.read(bi))[0]" in t \
-        and "self._fileh.seek(reclen+delta,1)" in t and "delta=4-bi" in t and "whileicol<=cols" in t
-    ctx.check(ok, "_skipop4_binary: per column record 4 + bi + (reclen + 4 - bi) bytes; stops after the sentinel column cols + 1", sb)
-    lb = M.func(ctx, "OP4._loadop4_binary")
-    ok = "nbytes=reclen-3*self._bytes_i+4" in utext(lb)
-    ctx.check(ok, "_loadop4_binary: after the sentinel header (3 words) the rest of the record and its marker are consumed", lb)
+            inner = C.loops_in(col.items, deep=False)
+            rest = [it for it in body if it[0] != "loop"]
+            tot = C.total(rest, "B")
+            ok = len(inner) == 1 and tot is not None and C.same(tot, 4 + head)
+            ctx.check(ok, f"{reader}: per column the strings are followed by the end marker and the 4 + 3-word head of the next record", col.node,
+                      None if ok else C.show(body)[:300])
+        # loop condition: same stop as the skipper (column number - 1 < cols  <=>  column number <= cols), column number = header word 0
+        t = C.fn_parts(C.norm(col.test))
+        ps = _lv_in(col.test, col.frame)
+        upd = [v for p, v in col.carry if len(ps) == 1 and p.equals(ps[0])]
+        hf = _header_field(upd[0] + 1, anywhere=True) if len(upd) == 1 and _rat(upd[0]) else None
+        colsv = bound.get("cols")
+        ok = t is not None and t[0] == "ge0" and len(ps) == 1 and _rat(colsv) and C.same(t[1][0], colsv - (ps[0] + 1)) and hf is not None \
+            and hf[0] == "word" and hf[1] == 0
+        ctx.check(ok, f"{reader}: reads columns while (column number of the head just read) <= cols, the condition the skipper stops on", col.node,
+                  None if ok else {"test": repr(C.norm(col.test))})
+    lb = None
+    w, call = _loader_with(ctx, "_loadop4_binary", "_rd_dense_binary")
+    if w is not None:
+        # after the reader: the rest of the sentinel record.  The reader returns the record length it read last.
+        post = []
+        seen_loop = 0
+        for it in w.top.items:
+            if it[0] == "loop":
+                seen_loop += 1
+                post = []
+            else:
+                post.append(it)
+        # post = items after the last top-level loop: [head of first record] ... reader loops are nested deeper (inlined) so they are top-level too
+        tail = C.tidy(_until_exit(post))
+        rf = ctx.src.func(OP4, "OP4._rd_dense_binary")
+        col = [lp for lp in C.loops_in(w.top.items, deep=False) if any(lp.node is n for n in ast.walk(rf))]
+        ok = len(col) == 1 and len(tail) == 1 and tail[0][0] == "B"
+        if ok:
+            # the record length in force after the loop: entry value (first record) or the one read in the last iteration
+            ps = [(p, v) for p, v in col[0].carry if _rat(v) and _header_field(v, True) is not None and _header_field(v, True)[0] == "word"
+                  and C.fn_parts(_header_field(v, True)[2])[1][2].equals(F.const(4))]
+            ok = len(ps) == 1 and all(C.same(T.numval(C.norm(tail[0][1]), tbs[b]),
+                                             T.numval(F.fn("fin", ps[0][0]) - F.sym("self._bytes_iii") + 4, tbs[b])) for b in (32, 64))
+        ctx.check(ok, "_loadop4_binary: after the sentinel head (4 + 3 words) the rest of the record and its end marker are consumed "
+                      "(reclen - 3 words + 4)", w.fn, None if ok else C.show(post)[:300])
+    # ---- op4 ascii: readers vs skipper, layout by layout
+    sk = _w4(ctx, "_skipop4_ascii")
+    if sk is not None:
+        skf = sk.fn
+        sparams = [a.arg for a in skf.args.args][1:]
+        sk_items = C.tidy(_strip_exit(sk.top.items))
+        sk_loops = [lp for lp in C.loops_in(sk.top.items) if not any(lp is x for o in C.loops_in(sk.top.items) for x in C.loops_in(o.items))]
+        first_line = F.fn("ln", sk.top.id, F.const(0))
+        ok = len(sk_items) >= 3 and sk_items[0] == sk_items[0] and sk_items[0][0] == "L" and C.same(sk_items[0][1], F.const(1)) \
+            and sk_items[-1][0] == "L" and C.same(sk_items[-1][1], F.const(1)) and len(sk_loops) == 3
+        ctx.check(ok, "_skipop4_ascii: one column-header line, one of three column loops (dense, bigmat, nonbigmat), one trailing line", skf,
+                  None if ok else C.show(sk.top.items)[:300])
+        used = set()
+        for reader, label in (("_rd_dense_ascii", "dense"), ("_rd_bigmat_ascii", "bigmat"), ("_rd_nonbigmat_ascii", "nonbigmat")):
+            rf = ctx.src.func(OP4, "OP4." + reader)
+            w, call = _loader_with(ctx, "_loadop4_ascii", reader)
+            if w is None:
+                continue
+            cols_l = [lp for lp in C.loops_in(w.top.items) if any(lp.node is n for n in ast.walk(rf))]
+            outer = [lp for lp in cols_l if not any(lp is x for o in cols_l for x in C.loops_in(o.items))]
+            skipcalls = [e for e in w.events if e[0] == "call" and e[1] == "self._skipop4_ascii"]
+            if len(outer) != 1 or len(skipcalls) != 1:
+                ctx.error(f"{reader}: column loop / skip call", rf)
+                continue
+            col = outer[0]
+            # the loader's header values are the skipper's arguments; the line read before the loop is the skipper's first line
+            a = place(skipcalls[0][2], skipcalls[0][3], sparams)
+            mapping = [(v, F.sym(k)) for k, v in a.items() if _rat(v) and C.as_atom(v) is not None]
+            line0 = [e[1] for e in w.events if e[0] == "line" and C.fn_parts(e[1])[1][0].equals(w.top.id)]
+            if not line0:
+                ctx.error(f"{reader}: the column-header line read by the loader", rf)
+                continue
+            mapping += [(line0[0], F.sym("LINE0")), (col.frame, F.sym("LOOP"))]
+            mine = C.map_loop(col, C.renamer(mapping))
+            hit = None
+            whys = []
+            for i, lp in enumerate(sk_loops):
+                why = []
+                theirs = C.map_loop(lp, C.renamer([(first_line, F.sym("LINE0")), (lp.frame, F.sym("LOOP"))]))
+                if C.same_loops(mine, theirs, whole_values=False, why=why):
+                    hit = i
+                    break
+                whys.append(why[:1])
+            ok = hit is not None and hit not in used
+            if hit is not None:
+                used.add(hit)
+            ctx.check(ok, f"{reader} and the {label} arm of _skipop4_ascii consume the same lines column by column and string by string "
+                          "(ceil(n / perline) data lines per block; (L + p - 1)//p == (L - 1)//p + 1), decode the same header fields and stop on the same "
+                          "column test", col.node, None if ok else {"read": C.show(mine.items)[:300], "differences": whys})
+            # around the loop: the loader reads one column-header line before and one trailing line after the reader
+            post = []
+            for it in w.top.items:
+                if it[0] == "loop":
+                    post = []
+                else:
+                    post.append(it)
+            t = C.total(_until_exit(post), "L")
+            ok = t is not None and C.same(t, F.const(1))
+            ctx.check(ok, f"_loadop4_ascii ({label}): one trailing line is read after the matrix, as the skipper does", w.fn, nontrivial=False)
+
+
+# ------------------------------------------------------------------------------------------------------------------ R5
+def _guard_equiv(guard, want):
+    try:
+        return C.bool_equiv(C.guard_form(guard), want)
+    except Unsupported:
+        return None
 
 
 def r5_listing_equals_read(ctx):
-    for q, sz in (("OP4._loadop4_ascii", "(abs(rows), cols)"), ("OP4._loadop4_binary", "(abs(rows), cols)")):
-        fn = M.func(ctx, q)
-        rets = [r for r in ast.walk(fn) if isinstance(r, ast.Return) and isinstance(r.value, ast.Tuple) and len(r.value.elts) == 4]
-        lst = [r for r in rets if any(isinstance(a, ast.If) and ast.unparse(a.test) == "listonly" for a in ancestors(r))]
-        ok = len(lst) == 1 and [ast.unparse(e) for e in lst[0].value.elts] == ["name", sz, "form", "mtype"]
-        ctx.check(ok, f"{q.split('.')[1]}: a listing returns (name, (abs(rows), cols), form, mtype) from the same header fields a full read uses", fn)
-        full = [r for r in rets if r not in lst and ast.unparse(r.value.elts[0]) == "name"]
-        ok = len(full) == 1 and [ast.unparse(e) for e in full[0].value.elts] == ["name", "X", "form", "mtype"]
-        ctx.check(ok, f"{q.split('.')[1]}: a full read returns (name, X, form, mtype) with the same name/form/type variables", fn)
-        t = utext(fn)
-        ok = "ifpatternlistandnamenotinpatternlist:skip=1else:skip=0" in t.replace("\n", "") and "iflistonlyorskip:" in t
-        ctx.check(ok, f"{q.split('.')[1]}: a matrix is skipped exactly when listing or when its name is not in the requested list", fn)
-    a = M.func(ctx, "OP4._loadop4_ascii")
-    b = M.func(ctx, "OP4._loadop4_binary")
-    ok = "name=self._check_name(" in ast.unparse(a) and "name=self._check_name(" in utext(b).replace("name=self._check_name(", "name=self._check_name(")
-    ctx.check("self._check_name" in ast.unparse(a) and "self._check_name" in ast.unparse(b),
-              "both loaders normalise names with _check_name before filtering (same names in listings, filters and reads)", a)
-    for q in ("OP4.dctload", "OP4.listload", "OP4.dir"):
-        fn = M.func(ctx, q)
-        t = utext(fn)
-        ok = "ifself._ascii:loadfunc=self._loadop4_asciielse:loadfunc=self._loadop4_binary" in t.replace("\n", "") and "ifnotname:break" in t.replace("\n", "")
-        ctx.check(ok, f"{q.split('.')[1]}: iterates the same loader until it reports end of file", fn)
-    # op2 directory vs rdop2matrix sizes
-    d = ctx.src.func(OP2, "OP2.directory")
-    t = utext(d)
-    mt = ctx.src.func(OP2, "OP2.rdop2matrix")
-    tm = utext(mt)
-    ok = "rows=trailer[2]" in tm and "np.zeros((rows,trailer[1]),order='F')" in tm
-    ctx.check(ok, "rdop2matrix allocates (trailer[2] rows, trailer[1] columns)", mt)
-    ok = "trailer[2]" in t and "trailer[1]" in t
-    ctx.check(ok, "directory reports matrix sizes from trailer[2] x trailer[1], the fields rdop2matrix allocates from", d)
-
-
-def r6_cursor(ctx):
-    """a preallocated output is filled through data[i : i + n]; the cursor must advance by that same n"""
-    fn = ctx.src.func(OP2, "OP2.rdop2record")
-    n = 0
-    for lp in ast.walk(fn):
-        if not isinstance(lp, ast.While):
+    for loader, reader, skipper in (("_loadop4_ascii", "_rd_dense_ascii", "self._skipop4_ascii"), ("_loadop4_binary", "_rd_dense_binary", "self._skipop4_binary")):
+        rf = ctx.src.func(OP4, "OP4." + reader)
+        w, call = _loader_with(ctx, loader, reader)
+        if w is None:
             continue
-        stores = [s for s in ast.walk(lp) if isinstance(s, ast.Assign) and isinstance(s.targets[0], ast.Subscript)
-                  and isinstance(s.targets[0].slice, ast.Slice) and s.targets[0].slice.lower is not None and s.targets[0].slice.upper is not None]
-        for s in stores:
-            lo, up = s.targets[0].slice.lower, s.targets[0].slice.upper
-            if not (isinstance(up, ast.BinOp) and isinstance(up.op, ast.Add) and ast.unparse(up.left) == ast.unparse(lo)):
+        fn = w.fn
+        params = {a.arg for a in fn.args.args}
+        rets = [r for r in w.returns if isinstance(r[0], tuple) and len(r[0]) == 4]
+        lonly = F.sym("listonly") if "listonly" in params else None
+        plist = F.sym("patternlist") if "patternlist" in params else None
+        if lonly is None or plist is None:
+            ctx.error(f"{loader}: parameters listonly / patternlist", fn)
+            continue
+        none = F.sym("None")
+        real = [r for r in rets if not all(_rat(x) and x.equals(none) for x in r[0])]
+        want_l = ("atom", repr(lonly), lonly)
+        lst = [r for r in real if _guard_equiv(_loop_guard(r[1]), want_l) is True]
+        full = [r for r in real if not any(r is x for x in lst)]
+        bound = w.bound.get(id(rf), {})
+        ok = len(lst) == 1 and len(full) == 1
+        if ok:
+            L_, F_ = lst[0][0], full[0][0]
+            size = L_[1]
+            ok = isinstance(size, tuple) and len(size) == 2 and C.same(size[0], bound.get("rows")) and C.same(size[1], bound.get("cols"))
+        ctx.check(ok, f"{loader}: a listing returns (name, (abs(rows), cols), form, mtype) with the very sizes a full read gives its reader", fn,
+                  None if ok else {"listing returns": len(lst), "full returns": len(full)})
+        ok = len(lst) == 1 and len(full) == 1 and all(C.same(lst[0][0][i], full[0][0][i]) for i in (0, 2, 3))
+        ctx.check(ok, f"{loader}: a full read returns (name, X, form, mtype) with the same name / form / type values as the listing", fn)
+        name = lst[0][0][0] if len(lst) == 1 else None
+        skips = [e for e in w.events if e[0] == "call" and e[1] == skipper]
+        ok = len(skips) == 1 and _rat(name)
+        if ok:
+            isin = ("atom", "IN", None)
+            # skip <=> listonly or (patternlist and name not in patternlist)
+            inn = C.canon_tests(F.fn("cmp:In", name, plist))
+            want = ("or", [want_l, ("and", [("atom", repr(plist), plist), ("not", ("atom", repr(inn), inn))])])
+            ok = _guard_equiv(_loop_guard(skips[0][4]), want) is True
+        ctx.check(ok, f"{loader}: a matrix is skipped exactly when listing or when its name is not in the requested list", fn,
+                  None if ok else {"skip calls": len(skips)})
+        np_ = C.fn_parts(name) if _rat(name) else None
+        ok = np_ is not None and np_[0] == "call:self._check_name"
+        ctx.check(ok, f"{loader}: names are normalised with _check_name before filtering (same names in listings, filters and reads)", fn)
+    for q in ("dctload", "listload", "dir"):
+        w = _w4(ctx, q, follow=False)
+        if w is None:
+            continue
+        want = C.phi(F.sym("self._ascii"), F.sym("self._loadop4_ascii"), F.sym("self._loadop4_binary"))
+        calls = [e for e in w.events if e[0] == "call" and e[6] is not None and _rat(e[6]) and C.same(e[6], want)]
+        lps = C.loops_in(w.top.items)
+        ok = len(calls) == 1
+        if ok:
+            e = calls[0]
+            val = C.CEval  # noqa
+            # the loop ends exactly when the loader reports no name
+            inloop = [lp for lp in lps if e[7].equals(lp.frame)]
+            ok = len(inloop) == 1
+            if ok:
+                lp = inloop[0]
+                brk = _break_guards(lp)
+                res = e[8]
+                nm = F.fn("idx", res, F.const(0)) if _rat(res) else None
+                ok = len(brk) == 1 and nm is not None and _guard_equiv(brk[0], ("not", ("atom", repr(nm), nm))) is True and C.same(lp.test, F.const(1))
+            if ok and q == "dir":
+                ok = _rat(e[3].get("listonly")) and (C.sym_name(e[3]["listonly"]) == "True" or e[3]["listonly"].equals(F.const(1)))
+        ctx.check(ok, f"{q}: iterates the same loader (ascii or binary by the detected format) until it reports end of file", w.fn)
+    # ---- op2 directory vs rdop2matrix sizes
+    d = _w2(ctx, "directory", follow=False)
+    mt = _w2(ctx, "rdop2matrix")
+    if mt is not None:
+        buf = None
+        for _k, v, _st in mt.all_inits:
+            if _rat(v):
+                p = C.fn_parts(v)
+                if p is not None and p[0] == "call:np.zeros":
+                    buf = p
+        tr = F.sym(mt.fn.args.args[1].arg)
+        ok = buf is not None
+        if ok:
+            shp = C.fn_parts(buf[1][0])
+            ok = shp is not None and shp[0] == "tuple" and len(shp[1]) == 2 and C.same(shp[1][1], F.fn("idx", tr, F.const(1)))
+            if ok:
+                rows = {repr(C.norm(v[0])) for _p, v in C.leaves([shp[1][0]])}
+                t2 = F.fn("idx", tr, F.const(2))
+                ok = rows == {repr(C.norm(t2)), repr(C.norm(2 * t2))}
+        ctx.check(ok, "rdop2matrix allocates (trailer[2] rows [x 2 reals for a complex type], trailer[1] columns)", mt.fn)
+    if d is not None:
+        sns = [e for e in d.events if e[0] == "call" and (e[1] or "").endswith("SimpleNamespace")]
+        ok = len(sns) == 1 and _rat(sns[0][3].get("trailer")) or (len(sns) == 1 and isinstance(sns[0][3].get("size"), tuple))
+        if ok:
+            kw = sns[0][3]
+            tr, size = kw.get("trailer"), kw.get("size")
+            ok = _rat(tr) and isinstance(size, tuple) and len(size) == 2
+            if ok:
+                want = (F.fn("idx", tr, F.const(2)), F.fn("idx", tr, F.const(1)))
+                got = set()
+                for _p, v in C.leaves(list(size)):
+                    got.add((repr(C.norm(v[0])), repr(C.norm(v[1]))))
+                ok = (repr(C.norm(want[0])), repr(C.norm(want[1]))) in got and len(got) == 2 and ("0", "0") in got
+        ctx.check(ok, "directory reports matrix sizes from trailer[2] x trailer[1] of the trailer it stores, the fields rdop2matrix allocates from", d.fn)
+        rmw = _w2(ctx, "_rdmat", follow=False)
+        if rmw is not None:
+            calls = [e for e in rmw.events if e[0] == "call" and e[1] in ("self.set_position", "self.rdop2nt", "self.rdop2matrix")]
+            sn = F.sym(rmw.fn.args.args[1].arg)
+            nm = C.sym_name(sn)
+            ok = [e[1] for e in calls] == ["self.set_position", "self.rdop2nt", "self.rdop2matrix"] \
+                and len(calls[0][2]) >= 1 and C.same(calls[0][2][0], F.fn("attr:start", sn)) and len(calls[2][2]) == 1 and C.same(calls[2][2][0], F.fn("attr:trailer", sn))
+            ctx.check(ok, "_rdmat: a positioned read seeks to the start recorded by the directory scan, re-reads name and trailer, and decodes with the "
+                          "trailer the directory stored", rmw.fn)
+
+
+def _loop_guard(guard, syms=("listonly", "patternlist")):
+    """the part of a guard that speaks about the selection parameters (end-of-file tests and constant loop tests dropped)"""
+    return tuple((c, pol) for c, pol in guard if _rat(c) and any(d[0] == "s" and d[1] in syms for d in C.walk_atoms(c)))
+
+
+def _break_guards(lp):
+    """guards (relative to the loop body) under which a `break` is reached"""
+    out = []
+
+    def rec(items, g):
+        for it in items:
+            if it[0] == "exit" and it[1] == "break":
+                out.append(g)
+                return True
+            if it[0] == "exit":
+                return True
+            if it[0] == "if":
+                a = rec(it[2], g + ((it[1], True),))
+                b = rec(it[3], g + ((it[1], False),))
+                if a and b:
+                    return True
+                if a:
+                    g = g + ((it[1], False),)
+                elif b:
+                    g = g + ((it[1], True),)
+        return False
+    rec(lp.items, ())
+    return out
+
+
+# ------------------------------------------------------------------------------------------------------------------ R6
+def r6_cursor(ctx):
+    """a preallocated output is filled through data[i : i + n]; the cursor must advance by that same n, the n values just decoded"""
+    w = _w2(ctx, "rdop2record")
+    if w is None:
+        return
+    fn = w.fn
+    n = 0
+    for lp in C.loops_in(w.top.items):
+        stores = [(nm, ix, val, st) for nm, ix, val, st in w.all_cells if any(st is x for x in ast.walk(lp.node))]
+        sites = [c for c in w.cutovers if any(c["node"] is x for x in ast.walk(lp.node))]
+        seen = set()
+        for nm, ix, val, st in stores:
+            p = C.fn_parts(ix) if _rat(ix) else None
+            if p is None or p[0] != "slice" or not _rat(p[1][0]) or not _rat(p[1][1]):
                 continue
-            cur, ext = ast.unparse(lo), ast.unparse(up.right)
-            incs = [a for a in ast.walk(lp) if isinstance(a, ast.AugAssign) and isinstance(a.op, ast.Add) and ast.unparse(a.target) == cur]
+            lo, up = p[1][0], p[1][1]
+            ps = _lv_in(lo, lp.frame)
+            if len(ps) != 1 or not lo.equals(ps[0]):
+                continue
+            ext = up - lo
+            k = (nm, repr(lo))
+            upd = [v for q, v in lp.carry if q.equals(ps[0])]
             n += 1
-            ok = len(incs) == 1 and ast.unparse(incs[0].value) == ext
-            ctx.check(ok, f"rdop2record: the write cursor `{cur}` advances by the number of values just stored (`{ext}`)", s,
-                      None if ok else {"slice": ast.unparse(s.targets[0]), "increment": [ast.unparse(a) for a in incs],
-                                       "consequence": "parts of a multi-part record overlap or leave gaps whenever the element size differs from the key width"})
-    ctx.check(n >= 2, f"cursor rule bound to {n} slice stores", fn, nontrivial=False)
-    alloc = [s for s in ast.walk(fn) if isinstance(s, ast.Assign) and ast.unparse(s.targets[0]) == "data" and "np.empty(N" in ast.unparse(s.value)]
-    ok = len(alloc) == 1 and "dtype=frm" in ast.unparse(alloc[0].value).replace(" ", "")
-    ctx.check(ok, "rdop2record: the preallocated output has N elements of the record's dtype", alloc[0] if alloc else fn)
+            ok = len(upd) == 1 and _rat(upd[0]) and C.same(upd[0] - ps[0], ext, whole_values=False)
+            cnt_ok = len(sites) == 1 and C.same(ext, sites[0]["count_ff"], whole_values=False)
+            ctx.check(ok and cnt_ok, "rdop2record: the write cursor advances by the number of values just decoded and stored", st,
+                      None if ok and cnt_ok else {"slice": f"[{lo!r} : {up!r}]", "cursor after the record": repr(upd[0]) if upd else None,
+                                                  "values decoded": repr(sites[0]["count_ff"]) if len(sites) == 1 else None,
+                                                  "consequence": "parts of a multi-part record overlap or leave gaps whenever the element size differs from the key width"})
+    ctx.check(n >= 1, f"cursor rule bound to {n} slice stores", fn, nontrivial=False)
+    ok = False
+    Np = F.sym("N")
+    for k, v, _st in w.all_inits:
+        p = C.fn_parts(v) if _rat(v) else None
+        if p is not None and p[0] in ("call:np.empty", "call:np.zeros") and len(p[1]) == 2 and _rat(p[1][0]) and p[1][0].equals(Np):
+            kw = C.fn_parts(p[1][1])
+            sites = w.cutovers
+            ok = kw is not None and kw[0] == "kw:dtype" and bool(sites) and all(C.same(kw[1][0], c["dtype"]) for c in sites)
+    ctx.check(ok, "rdop2record: the preallocated output has N elements of the dtype the records are decoded with", fn)
+
+
+# ------------------------------------------------------------------------------------------------------------------ R7
+def _strip_calls(v):
+    """(method, character set) of every .strip/.lstrip/.rstrip(chars) application inside a formula"""
+    out = []
+    for d in C.walk_atoms(v):
+        if d[0] == "fn" and d[1].startswith("call:") and d[1].split(".")[-1] in ("strip", "lstrip", "rstrip"):
+            args = [C._arg(k) for k in d[2]]
+            own = d[1] != "call:." + d[1].split(".")[-1]
+            chars = args[0:] if own else args[1:]
+            if chars:
+                s = C.sym_name(chars[0]) if _rat(chars[0]) else None
+                try:
+                    txt = ast.literal_eval(s) if s and s[:1] in "'\"" else None
+                except Exception:  # noqa
+                    txt = None
+                out.append((d[1].split(".")[-1], txt))
+    return out
+
+
+def r7_announced_format(ctx):
+    """the values-per-line and field width announced in an ASCII matrix header reach the reader and the skipper unharmed, whatever digits they
+    start with"""
+    w, call = _loader_with(ctx, "_loadop4_ascii", "_rd_dense_ascii")
+    if w is None:
+        return
+    fn = w.fn
+    rf = ctx.src.func(OP4, "OP4._rd_dense_ascii")
+    skf = ctx.src.func(OP4, "OP4._skipop4_ascii")
+    bound = w.bound.get(id(rf), {})
+    skipcalls = [e for e in w.events if e[0] == "call" and e[1] == "self._skipop4_ascii"]
+    a = place(skipcalls[0][2], skipcalls[0][3], [x.arg for x in skf.args.args][1:]) if len(skipcalls) == 1 else {}
+    pl, nl, pl2 = bound.get("perline"), bound.get("numlen"), a.get("perline")
+    if not (_rat(pl) and _rat(nl) and _rat(pl2)):
+        ctx.error("_loadop4_ascii: perline / numlen passed to the reader and the skipper", fn)
+        return
+    ok = C.same(pl, pl2, whole_values=False)
+    ctx.check(ok, "_loadop4_ascii: the skipper is given the values-per-line the reader is given", fn)
+    ll = bound.get("linelen")
+    ok = _rat(ll) and C.same(ll, pl * nl, whole_values=False)
+    ctx.check(ok, "_loadop4_ascii: the used part of a data line is perline * field width characters", fn)
+    for label, v in (("values per line", pl), ("field width", nl)):
+        bad = []
+        for meth, chars in _strip_calls(v):
+            if chars is None:
+                continue
+            if meth in ("lstrip", "strip") and any(ch.isdigit() for ch in chars):
+                bad.append((meth, chars, "1P,1%sE8.1" % ("0" if label == "values per line" else "")))
+            if meth in ("rstrip", "strip") and any(ch.isdigit() or ch == "." for ch in chars) and label == "field width":
+                bad.append((meth, chars, "1P,5E10.1"))
+            if meth in ("lstrip", "strip") and any(ch in "ED" for ch in chars.upper()):
+                bad.append((meth, chars, "5E16.9"))
+        ok = not bad
+        ctx.check(ok, f"_loadop4_ascii: the announced {label} is parsed from the header text without stripping a *set of characters* that "
+                      "can eat its digits (str.lstrip / strip remove characters, not a prefix)", fn,
+                  None if ok else {"call": f".{bad[0][0]}({bad[0][1]!r})", "witness": f"announced format {bad[0][2]!r}: the repeat count loses its leading digit(s)",
+                                   "consequence": "perline is wrong for the reader, the lister and the skipper alike"})
+    # prefix removal: `if t.startswith(P): t = t[len(P):]`
+    n = 0
+    good = True
+    detail = None
+    for d in C.walk_atoms(pl):
+        if d[0] == "fn" and d[1] == "phi":
+            c, x, y = (C._arg(k) for k in d[2])
+            pc = C.fn_parts(c)
+            if pc is None or not pc[0].endswith(".startswith"):
+                continue
+            lit = C.sym_name(pc[1][-1]) if _rat(pc[1][-1]) else None
+            px = C.fn_parts(x)
+            if lit is None or lit[:1] not in "'\"" or px is None or px[0] != "idx":
+                continue
+            sl = C.fn_parts(px[1][1]) if _rat(px[1][1]) else None
+            if sl is None or sl[0] != "slice" or not _rat(sl[1][0]) or not sl[1][0].is_const():
+                continue
+            n += 1
+            if int(sl[1][0].const_value()) != len(ast.literal_eval(lit)) or not C.same(px[1][0], y):
+                good, detail = False, {"prefix": lit, "removed characters": str(sl[1][0].const_value())}
+    if n:
+        ctx.check(good, "_loadop4_ascii: an optional prefix of the announced format is removed by its own length, only when present", fn, detail)
+
+
+# ------------------------------------------------------------------------------------------------------------------ R8
+def r8_name_selection(ctx):
+    """reading a named subset equals filtering a full read: a requested name without a wild card selects the data blocks of exactly that name"""
+    w = _w2(ctx, "_has_match", follow=False)
+    if w is None:
+        return
+    fn = w.fn
+    params = [a.arg for a in fn.args.args]
+    if len(params) != 2:
+        ctx.error("_has_match(name, names)", fn)
+        return
+    name = F.sym(params[0])
+    trues = [r for r in w.returns if _rat(r[0]) and (C.sym_name(r[0]) == "True" or r[0].equals(F.const(1)))]
+    if not trues:
+        ctx.error("_has_match: `return True`", fn)
+        return
+
+    def mentions(v, what):
+        return any(d == C.as_atom(what) for d in C.walk_atoms(v))
+
+    def classify(v):
+        """kind of a guard atom: 'eq' (name == pattern-derived), 'wild' (a test on the wild card), 'prefix' (name.startswith(...)), 'other'"""
+        p = C.fn_parts(v)
+        if p is None:
+            return "other"
+        if p[0] == "eq0":
+            # an equality between the name and something that does not contain the name
+            d = p[1][0]
+            if mentions(d, name) and not any(dd[0] == "fn" and mentions(F.Rat(F.Poly.atom(F._intern(dd))), name) for dd in C.walk_atoms(d) if dd[0] == "fn"):
+                return "eq"
+            if any(dd[0] == "s" and dd[1] in ("'*'", '"*"') for dd in C.walk_atoms(d)):
+                return "wild"
+            return "other"
+        if p[0].endswith(".startswith") and (p[0] == f"call:{params[0]}.startswith" or (p[0] == "call:.startswith" and _rat(p[1][0]) and p[1][0].equals(name))):
+            return "prefix"
+        if p[0].endswith(".endswith") or p[0] == "cmp:In":
+            if any(dd[0] == "s" and dd[1] in ("'*'", '"*"') for dd in C.walk_atoms(v)):
+                return "wild"
+        return "other"
+
+    proved, undecided = None, None
+    for r in trues:
+        try:
+            g = C.guard_form(tuple((c, pol) for c, pol in r[1] if not C.fn_parts(c) or C.fn_parts(c)[0] not in ("count",)))
+        except Unsupported as e:
+            undecided = str(e)
+            continue
+        atoms = C.bool_atoms(g)
+        kinds = {k: classify(v) for k, v in atoms.items()}
+        if any(kd == "other" for kd in kinds.values()):
+            undecided = [repr(atoms[k]) for k, kd in kinds.items() if kd == "other"]
+            continue
+        for asg in C.assignments(atoms.keys()):
+            if not C.bool_eval(g, asg):
+                continue
+            if not any(asg[k] for k, kd in kinds.items() if kd in ("eq", "wild")):
+                proved = {"return True reached with": {repr(atoms[k]): asg[k] for k in atoms},
+                          "witness": "rdop2mats(['kaa']) on a file holding KAA and KAAX returns both; filtering the full read by the name gives KAA only"}
+                break
+    if proved is None and undecided is not None:
+        ctx.error("_has_match: the condition under which a data block name is selected cannot be lowered", fn, undecided)
+        return
+    ctx.check(proved is None, "_has_match: a name is selected only by equality with a requested name, or by its prefix when the requested name "
+                              "carries the wild card `*` (never by a prefix test alone)", fn, proved)
+    # both sides are compared in upper case
+    ups = [d for r in trues for c, _pol in r[1] if _rat(c) for d in C.walk_atoms(c) if d[0] == "fn" and d[1].endswith(".upper")]
+    ctx.check(bool(ups), "_has_match: requested names are compared in upper case (data block names are upper case)", fn, nontrivial=False)
+    gv = _w2(ctx, "_get_valid_names", follow=False)
+    if gv is not None:
+        calls = [e for e in gv.events if e[0] == "call" and e[1] == "self._has_match"]
+        ok = len(calls) >= 1
+        ctx.check(ok, "_get_valid_names: the requested names are applied through _has_match to the names of the directory", gv.fn, nontrivial=False)
 
 
 RULES = [
     ("C11-R1", r1_cutover_pairs, 30),
-    ("C11-R2", r2_declared_sizes, 20),
-    ("C11-R3", r3_sibling_decoders, 15),
-    ("C11-R4", r4_read_equals_skip, 14),
+    ("C11-R2", r2_declared_sizes, 30),
+    ("C11-R3", r3_sibling_decoders, 18),
+    ("C11-R4", r4_read_equals_skip, 20),
     ("C11-R5", r5_listing_equals_read, 12),
     ("C11-R6", r6_cursor, 3),
+    ("C11-R7", r7_announced_format, 4),
+    ("C11-R8", r8_name_selection, 2),
 ]
 LEVEL = "other"
-EXPLANATION = ("Static: per-variant constants are self-consistent (struct code / numpy dtype / byte count), both decoding routes at the 3000-value cut-over "
-               "read the same type and count, sibling decoders share their header arithmetic (symbolic, over the whole 16-bit row range), skippers consume "
-               "what readers consume, listings take sizes from the fields reads use, multi-part record cursors advance by what was stored.")
+EXPLANATION = ("Static, decided on values by a consumption evaluator (file-position bookkeeping per loop body and per branch): per-variant constants are "
+               "self-consistent (struct code / numpy dtype / byte count at every decode), both decoding routes at the 3000-value cut-over read the same "
+               "type, count and bytes, sibling decoders share their header arithmetic (symbolic, over the whole 16-bit row range) and read what the header "
+               "announces, skippers consume what readers consume and stop where they stop, listings take sizes from the fields reads use, multi-part "
+               "record cursors advance by what was stored, announced ASCII formats are parsed without character-set stripping, exact names select "
+               "exactly.")
 MANIFEST = {
     "text": "Partial claim decided statically: (R1) struct/fromfile pairs at every cut-over site of op4 and op2 decode the same kind, size and count for 32- and "
-            "64-bit keys and every `form`; (R2) declared byte counts equal struct sizes in both key widths; (R3) nonbigmat/bigmat header arithmetic is the same "
-            "function of the header words in the ASCII reader, binary reader and skipper, valid for every row below 65536; (R4) readers and skippers advance "
-            "by the same bytes per record and read the same key sequence; (R5) listing = read for names, sizes, forms, types and name filtering; "
-            "(R6) multi-part record cursor. Not decided: conformance to Nastran's format beyond what the repo's writer and sibling readers witness.",
-    "note": "Trusted: CPython ast; struct / numpy type-code tables in verifier/c11.py; format invariant reclen = n * bytes_per (+ ibytes) for whole records.",
-    "technique": "static reader/skipper/listing layout comparison; struct-format vs numpy-dtype table agreement; symbolic header arithmetic",
+            "64-bit keys and every `form`; (R2) every struct decode reads the size of its format in both key widths; (R3) nonbigmat/bigmat header arithmetic is "
+            "the same function of the header words in the ASCII reader, binary reader and skipper, valid for every row below 65536, and the data read per "
+            "string is what the header announces; (R4) readers and skippers advance by the same bytes / lines per record and loop on the same keys; "
+            "(R5) listing = read for names, sizes, forms, types and name filtering; (R6) multi-part record cursor; (R7) announced ASCII format parsing; "
+            "(R8) exact-name selection in OP2. Not decided: conformance to Nastran's format beyond what the repo's writer and sibling readers witness.",
+    "note": "Trusted: CPython ast; struct / numpy type-code tables in verifier/c11_fmt.py; format invariants reclen = n * bytes_per (+ ibytes) for whole "
+            "records, reclen = key * ibytes for table records, reclen = (3 + nwords) * word size for op4 column records.",
+    "technique": "consumption evaluator (symbolic file-position bookkeeping) for reader/skipper/listing comparison; struct-format vs numpy-dtype table "
+                 "agreement; symbolic header arithmetic",
 }
